@@ -1,5 +1,22 @@
 import PetgraphModel.Extracted.Scratch
 import PetgraphModel.Proofs.Traversal
+import PetgraphModel.Theorems.C13
+import PetgraphModel.Theorems.C20
+import PetgraphModel.Proofs.C07W2Fas
+import PetgraphModel.Theorems.C08
+import PetgraphModel.Theorems.C16
+import PetgraphModel.Proofs.C07W2Dom
+import PetgraphModel.Theorems.C15
+import PetgraphModel.Proofs.C07W2Flow
+import PetgraphModel.Theorems.C12
+import PetgraphModel.Proofs.C07W2Mst
+import PetgraphModel.Theorems.C09
+import PetgraphModel.Proofs.C07W2Scc
+import PetgraphModel.Theorems.C11
+import PetgraphModel.Proofs.C07W2Neg
+import PetgraphModel.Proofs.C07W2Base
+import PetgraphModel.Proofs.C07W2Sp
+import PetgraphModel.Theorems.C10
 /-
 C07 — generic algorithms depend only on the abstract graph, not on its representation.
 
@@ -86,5 +103,1254 @@ theorem C07_reach_relabel (φ : Nat → Nat) (g : MGraph) (a b : Nat) (h : Reach
 
 /-! non-vacuity: the regenerated table is not empty and contains the repaired call sites -/
 example : scratchTable.length ≥ 20 := by decide
+
+/-! # Wave 2 — `C07_<A>_respects_iso`
+
+For every algorithm whose mirror model has a full correctness theorem, two corollaries:
+
+* *encoding independence* (`C07_<A>_encoding_independent`): two views — any storage type, any
+  iteration order, any `to_index` assignment, any heap tie order — of two presentations of the same
+  abstract graph (same adjacency `SameAdj` / same weighted arcs `SameArcs`: order of insertion, edge
+  ids and stored orientation of undirected edges are free) give the same answer where it is unique,
+  and equally good valid answers otherwise;
+* *isomorphism* (`C07_<A>_respects_iso`): the same when the second view presents the graph renamed
+  by an injective `φ : Nat → Nat` — the answer is carried along by `φ`.
+
+The specification-level facts (`C07_<notion>_relabel`) are stated separately. -/
+
+theorem relabel_eq (φ : Nat → Nat) (g : MGraph) : relabel φ g = C07W2.relabel φ g := rfl
+
+/-- an `Option`-valued answer is determined by a specification of its `some` values -/
+theorem opt_eq_of_spec {α : Type} {a b : Option α} {P : α → Prop} (ha : ∀ y, a = some y ↔ P y)
+    (hb : ∀ y, b = some y ↔ P y) : a = b := by
+  cases h : a with
+  | some y => exact ((hb y).mpr ((ha y).mp h)).symm
+  | none =>
+    cases h' : b with
+    | none => rfl
+    | some y => rw [(ha y).mpr ((hb y).mp h')] at h; cases h
+
+/-! ## specification notions under relabeling -/
+
+/-- `Reach` is carried along *exactly* by an injective renaming (the converse of `C07_reach_relabel`) -/
+theorem C07_reach_relabel_iff (φ : Nat → Nat) (hφ : ∀ x y, φ x = φ y → x = y) (g : MGraph) (a b : Nat) :
+    Reach (relabel φ g) (φ a) (φ b) ↔ Reach g a b :=
+  C07W2.reach_relabel_iff g hφ
+
+/-- … and what is reachable from an image is an image -/
+theorem C07_reach_relabel_image (φ : Nat → Nat) (hφ : ∀ x y, φ x = φ y → x = y) (g : MGraph) (a y : Nat)
+    (h : Reach (relabel φ g) (φ a) y) : ∃ b, y = φ b ∧ Reach g a b :=
+  C07W2.reach_relabel_inv g hφ h
+
+theorem C07_reach1_relabel (φ : Nat → Nat) (hφ : ∀ x y, φ x = φ y → x = y) (g : MGraph) (a b : Nat) :
+    Reach1 (relabel φ g) (φ a) (φ b) ↔ Reach1 g a b :=
+  C07W2.reach1_relabel_iff g hφ
+
+theorem C07_walkcost_relabel (φ : Nat → Nat) (hφ : ∀ x y, φ x = φ y → x = y) (g : MGraph) (a b : Nat) (c : Int) :
+    WalkCost (relabel φ g) (φ a) (φ b) c ↔ WalkCost g a b c :=
+  C07W2.walkCost_relabel_iff g hφ
+
+theorem C07_shortest_relabel (φ : Nat → Nat) (hφ : ∀ x y, φ x = φ y → x = y) (g : MGraph) (s v : Nat) (d : Int) :
+    IsShortest (relabel φ g) (φ s) (φ v) d ↔ IsShortest g s v d :=
+  C07W2.isShortest_relabel_iff g hφ
+
+theorem C07_kthcost_relabel (φ : Nat → Nat) (hφ : ∀ x y, φ x = φ y → x = y) (g : MGraph) (s v k : Nat) (c : Int) :
+    C10P.KthCost (relabel φ g) (φ s) (φ v) k c ↔ C10P.KthCost g s v k c :=
+  C07W2.kthCost_relabel_iff hφ g s v k c
+
+theorem C07_wellformed_relabel (φ : Nat → Nat) (hφ : ∀ x y, φ x = φ y → x = y) (g : MGraph)
+    (h : g.WellFormed) : (relabel φ g).WellFormed :=
+  C07W2.wellFormed_relabel g hφ h
+
+/-- the shortest-walk cost depends only on the set of weighted arcs -/
+theorem C07_shortest_presentation (g1 g2 : MGraph) (h : C07W2.SameArcs g1 g2) (s v : Nat) (d : Int) :
+    IsShortest g1 s v d ↔ IsShortest g2 s v d :=
+  C07W2.isShortest_congr h
+
+/-- the k-th cheapest walk cost depends only on the multiset of weighted arcs -/
+theorem C07_kthcost_presentation (g1 g2 : MGraph) (h : g1.arcs.Perm g2.arcs) (s v k : Nat) (c : Int) :
+    C10P.KthCost g1 s v k c ↔ C10P.KthCost g2 s v k c :=
+  C07W2.kthCost_perm h s v k c
+
+/-! ## C10 — dijkstra, k_shortest_path, astar -/
+section C10
+open PetgraphModel.C10P PetgraphModel.SP PetgraphModel.C07W2
+
+/-- **dijkstra, encoding independence**: two views of two presentations of the same weighted arcs, any
+two min-heap tie orders: without goal the two maps are equal as functions (same keys, same costs);
+with goal `t` the goal's entry is the same. -/
+theorem C07_dijkstra_encoding_independent (pop1 pop2 : Pop) (hp1 : IsMinPop pop1) (hp2 : IsMinPop pop2)
+    (v1 v2 : View) (hv1 : ViewArcs v1) (hv2 : ViewArcs v2) (hw : NonNeg v1.g)
+    (hg : SameArcs v1.g v2.g) (s : Nat) (goal : Option Nat) (m1 m2 : List (Nat × Int))
+    (r1 : SP.dijkstra pop1 v1 s goal = some m1) (r2 : SP.dijkstra pop2 v2 s goal = some m2) :
+    (goal = none → ∀ x, amGet m1 x = amGet m2 x) ∧ (∀ t, goal = some t → amGet m1 t = amGet m2 t) := by
+  have D1 := C10T.C10_dijkstra pop1 hp1 v1 hv1 hw s goal m1 r1
+  have D2 := C10T.C10_dijkstra pop2 hp2 v2 hv2 (nonNeg_congr hg hw) s goal m2 r2
+  refine ⟨fun hn x => ?_, fun t ht => ?_⟩
+  · exact opt_eq_of_spec (fun y => (D1.2.1 hn).1 x y)
+      (fun y => ((D2.2.1 hn).1 x y).trans (isShortest_congr hg).symm)
+  · exact opt_eq_of_spec (fun y => (D1.2.2 t ht).1 y)
+      (fun y => ((D2.2.2 t ht).1 y).trans (isShortest_congr hg).symm)
+
+/-- **dijkstra respects isomorphism**: if the second view presents the arcs of the first graph renamed
+by an injective `φ`, the map computed from `φ s` is the first map carried along by `φ` — same cost at
+`φ x` as at `x`, and no key outside the image of `φ`. -/
+theorem C07_dijkstra_respects_iso (φ : Nat → Nat) (hφ : ∀ x y, φ x = φ y → x = y)
+    (pop1 pop2 : Pop) (hp1 : IsMinPop pop1) (hp2 : IsMinPop pop2)
+    (v1 v2 : View) (hv1 : ViewArcs v1) (hv2 : ViewArcs v2) (hw : NonNeg v1.g)
+    (hg : SameArcs v2.g (relabel φ v1.g)) (s : Nat) (m1 m2 : List (Nat × Int))
+    (r1 : SP.dijkstra pop1 v1 s none = some m1) (r2 : SP.dijkstra pop2 v2 (φ s) none = some m2) :
+    (∀ x, amGet m2 (φ x) = amGet m1 x) ∧ (∀ y c, amGet m2 y = some c → ∃ x, y = φ x) := by
+  have hw2 : NonNeg v2.g := nonNeg_congr (SameArcs.symm hg) (nonNeg_relabel φ v1.g hw)
+  have D1 := (C10T.C10_dijkstra pop1 hp1 v1 hv1 hw s none m1 r1).2.1 rfl
+  have D2 := (C10T.C10_dijkstra pop2 hp2 v2 hv2 hw2 (φ s) none m2 r2).2.1 rfl
+  refine ⟨fun x => ?_, fun y c hy => ?_⟩
+  · exact opt_eq_of_spec
+      (fun d => ((D2.1 (φ x) d).trans (isShortest_congr hg)).trans (isShortest_relabel_iff v1.g hφ))
+      (fun d => D1.1 x d)
+  · have hsh := ((D2.1 y c).mp hy).1
+    obtain ⟨b, hb, _⟩ := walkCost_relabel_inv v1.g hφ ((walkCost_congr hg).mp hsh)
+    exact ⟨b, hb⟩
+
+/-- **dijkstra with a goal respects isomorphism**: the goal's entry is carried along. -/
+theorem C07_dijkstra_goal_respects_iso (φ : Nat → Nat) (hφ : ∀ x y, φ x = φ y → x = y)
+    (pop1 pop2 : Pop) (hp1 : IsMinPop pop1) (hp2 : IsMinPop pop2)
+    (v1 v2 : View) (hv1 : ViewArcs v1) (hv2 : ViewArcs v2) (hw : NonNeg v1.g)
+    (hg : SameArcs v2.g (relabel φ v1.g)) (s t : Nat) (m1 m2 : List (Nat × Int))
+    (r1 : SP.dijkstra pop1 v1 s (some t) = some m1) (r2 : SP.dijkstra pop2 v2 (φ s) (some (φ t)) = some m2) :
+    amGet m2 (φ t) = amGet m1 t := by
+  have hw2 : NonNeg v2.g := nonNeg_congr (SameArcs.symm hg) (nonNeg_relabel φ v1.g hw)
+  have D1 := (C10T.C10_dijkstra pop1 hp1 v1 hv1 hw s (some t) m1 r1).2.2 t rfl
+  have D2 := (C10T.C10_dijkstra pop2 hp2 v2 hv2 hw2 (φ s) (some (φ t)) m2 r2).2.2 (φ t) rfl
+  exact opt_eq_of_spec
+    (fun d => ((D2.1 d).trans (isShortest_congr hg)).trans (isShortest_relabel_iff v1.g hφ))
+    (fun d => D1.1 d)
+
+/-- **k_shortest_path, encoding independence** (every `k ≥ 1`, no goal): two views (any row order
+within the multiset condition `ViewArcsM`, any injective `to_index` below `node_bound`, any tie order)
+of graphs with the same *multiset* of arcs (any insertion order, edge ids, stored orientation of
+undirected edges) give the same map. -/
+theorem C07_kshortest_encoding_independent (pop1 pop2 : Pop) (hp1 : IsMinPop pop1) (hp2 : IsMinPop pop2)
+    (v1 v2 : View) (hv1 : ViewArcsM v1) (hv2 : ViewArcsM v2) (hw : NonNeg v1.g)
+    (hg : v1.g.arcs.Perm v2.g.arcs) (s k : Nat) (hk : 1 ≤ k)
+    (hix1 : C10P.IxOk v1 s) (hinj1 : IxInj v1 s) (hix2 : C10P.IxOk v2 s) (hinj2 : IxInj v2 s)
+    (m1 m2 : List (Nat × Int))
+    (r1 : kShortestPath pop1 v1 s none k = .done m1) (r2 : kShortestPath pop2 v2 s none k = .done m2) :
+    ∀ x, amGet m1 x = amGet m2 x := by
+  have hw2 : NonNeg v2.g := nonNeg_perm hg hw
+  have K1 := C10T.C10_kshortest pop1 hp1 v1 hv1 hw s k hk hix1 hinj1 m1 r1
+  have K2 := C10T.C10_kshortest pop2 hp2 v2 hv2 hw2 s k hk hix2 hinj2 m2 r2
+  intro x
+  exact opt_eq_of_spec (fun c => K1 x c) (fun c => (K2 x c).trans (kthCost_perm hg s x k c).symm)
+
+/-- **k_shortest_path respects isomorphism**: the k-th cheapest walk costs are carried along by `φ`,
+and the renamed run has no key outside the image of `φ`. -/
+theorem C07_kshortest_respects_iso (φ : Nat → Nat) (hφ : ∀ x y, φ x = φ y → x = y)
+    (pop1 pop2 : Pop) (hp1 : IsMinPop pop1) (hp2 : IsMinPop pop2)
+    (v1 v2 : View) (hv1 : ViewArcsM v1) (hv2 : ViewArcsM v2) (hw : NonNeg v1.g)
+    (hg : v2.g.arcs.Perm (relabel φ v1.g).arcs) (s k : Nat) (hk : 1 ≤ k)
+    (hix1 : C10P.IxOk v1 s) (hinj1 : IxInj v1 s) (hix2 : C10P.IxOk v2 (φ s)) (hinj2 : IxInj v2 (φ s))
+    (m1 m2 : List (Nat × Int))
+    (r1 : kShortestPath pop1 v1 s none k = .done m1) (r2 : kShortestPath pop2 v2 (φ s) none k = .done m2) :
+    (∀ x, amGet m2 (φ x) = amGet m1 x) ∧ (∀ y c, amGet m2 y = some c → ∃ x, y = φ x) := by
+  have hw2 : NonNeg v2.g := nonNeg_perm hg.symm (nonNeg_relabel φ v1.g hw)
+  have K1 := C10T.C10_kshortest pop1 hp1 v1 hv1 hw s k hk hix1 hinj1 m1 r1
+  have K2 := C10T.C10_kshortest pop2 hp2 v2 hv2 hw2 (φ s) k hk hix2 hinj2 m2 r2
+  refine ⟨fun x => ?_, fun y c hy => ?_⟩
+  · exact opt_eq_of_spec
+      (fun c => ((K2 (φ x) c).trans (kthCost_perm hg _ _ k c)).trans (kthCost_relabel_iff hφ v1.g s x k c))
+      (fun c => K1 x c)
+  · exact kthCost_relabel_image hφ v1.g hk ((kthCost_perm hg _ _ k c).mp ((K2 y c).mp hy))
+
+/-- what the total-correctness theorem `C10_astar` determines of an answer: `None` iff no goal is
+reachable, otherwise the cost of a cheapest walk to a goal -/
+theorem astar_cost_spec (pop : Pop) (hp : IsMinPop pop) (v : View) (hv : ViewArcs v) (hw : NonNeg v.g)
+    (s : Nat) (isGoal : Nat → Bool) (h : Nat → Int) (hadm : Admissible v.g isGoal h) (fuel : Nat)
+    (hf : astarBound v.g s ≤ fuel) :
+    (SP.astar pop v s isGoal h fuel = .notFound ∧ ∀ t, isGoal t = true → ¬ Reach v.g s t) ∨
+    ∃ cost p, SP.astar pop v s isGoal h fuel = .found cost p ∧
+      (∃ t, isGoal t = true ∧ WalkCost v.g s t cost) ∧
+      ∀ t' c', isGoal t' = true → WalkCost v.g s t' c' → cost ≤ c' := by
+  obtain ⟨h1, h2, h3⟩ := C10T.C10_astar pop hp v hv hw s isGoal h fuel hf
+  rcases h2 with hn | ⟨cost, p, hc⟩
+  · exact Or.inl ⟨hn, h1.mp hn⟩
+  · obtain ⟨t, ht, _, _, hwc, hopt⟩ := h3 cost p hc
+    exact Or.inr ⟨cost, p, hc, ⟨t, ht, hwc⟩, (hopt hadm).1⟩
+
+/-- **astar respects isomorphism (and the encoding)**: the second view presents the arcs of the first
+graph renamed by an injective `φ` (take `φ = id`-like renamings for pure re-encodings), the goal
+predicate is carried along, the two heuristics may be ANY two admissible ones, the tie orders any:
+both runs answer `None` or both answer `Some`, and then with the same cost (the paths may differ —
+they are both optimal by `C10_astar`). -/
+theorem C07_astar_respects_iso (φ : Nat → Nat) (hφ : ∀ x y, φ x = φ y → x = y)
+    (pop1 pop2 : Pop) (hp1 : IsMinPop pop1) (hp2 : IsMinPop pop2)
+    (v1 v2 : View) (hv1 : ViewArcs v1) (hv2 : ViewArcs v2) (hw : NonNeg v1.g)
+    (hg : SameArcs v2.g (relabel φ v1.g)) (s : Nat) (goal1 goal2 : Nat → Bool)
+    (hgoal : ∀ x, goal2 (φ x) = goal1 x) (h1 h2 : Nat → Int)
+    (ha1 : Admissible v1.g goal1 h1) (ha2 : Admissible v2.g goal2 h2) (f1 f2 : Nat)
+    (hf1 : astarBound v1.g s ≤ f1) (hf2 : astarBound v2.g (φ s) ≤ f2) :
+    (SP.astar pop1 v1 s goal1 h1 f1 = .notFound ↔ SP.astar pop2 v2 (φ s) goal2 h2 f2 = .notFound) ∧
+    ∀ c1 p1 c2 p2, SP.astar pop1 v1 s goal1 h1 f1 = .found c1 p1 →
+      SP.astar pop2 v2 (φ s) goal2 h2 f2 = .found c2 p2 → c1 = c2 := by
+  have hw2 : NonNeg v2.g := nonNeg_congr (SameArcs.symm hg) (nonNeg_relabel φ v1.g hw)
+  have A1 := astar_cost_spec pop1 hp1 v1 hv1 hw s goal1 h1 ha1 f1 hf1
+  have A2 := astar_cost_spec pop2 hp2 v2 hv2 hw2 (φ s) goal2 h2 ha2 f2 hf2
+  -- transport of walks between the two graphs
+  have fwd : ∀ t c, WalkCost v1.g s t c → WalkCost v2.g (φ s) (φ t) c :=
+    fun t c hwc => (walkCost_congr hg).mpr (walkCost_relabel φ v1.g hwc)
+  have bwd : ∀ y c, WalkCost v2.g (φ s) y c → ∃ t, y = φ t ∧ WalkCost v1.g s t c :=
+    fun y c hwc => walkCost_relabel_inv v1.g hφ ((walkCost_congr hg).mp hwc)
+  rcases A1 with ⟨e1, n1⟩ | ⟨c1, p1, e1, ⟨t1, g1, w1⟩, o1⟩ <;>
+    rcases A2 with ⟨e2, n2⟩ | ⟨c2, p2, e2, ⟨t2, g2, w2⟩, o2⟩
+  · refine ⟨⟨fun _ => e2, fun _ => e1⟩, ?_⟩
+    intro c1 p1 c2 p2 hc; rw [e1] at hc; cases hc
+  · exfalso
+    obtain ⟨t, rfl, hwt⟩ := bwd t2 c2 w2
+    exact n1 t (by rw [← hgoal]; exact g2) ((DistProofs.walk_iff_reach _ _ _).mp ⟨c2, hwt⟩)
+  · exfalso
+    exact n2 (φ t1) (by rw [hgoal]; exact g1) ((DistProofs.walk_iff_reach _ _ _).mp ⟨c1, fwd t1 c1 w1⟩)
+  · refine ⟨⟨fun h => (by rw [e1] at h; cases h), fun h => (by rw [e2] at h; cases h)⟩, ?_⟩
+    intro c1' p1' c2' p2' hc1 hc2
+    rw [e1] at hc1; rw [e2] at hc2
+    cases hc1; cases hc2
+    have le1 : c2 ≤ c1 := o2 (φ t1) c1 (by rw [hgoal]; exact g1) (fwd t1 c1 w1)
+    obtain ⟨t, rfl, hwt⟩ := bwd t2 c2 w2
+    have le2 : c1 ≤ c2 := o1 t c2 (by rw [← hgoal]; exact g2) hwt
+    omega
+
+/-- **astar, encoding independence**: the special case of two views of the same weighted arcs. -/
+theorem C07_astar_encoding_independent (pop1 pop2 : Pop) (hp1 : IsMinPop pop1) (hp2 : IsMinPop pop2)
+    (v1 v2 : View) (hv1 : ViewArcs v1) (hv2 : ViewArcs v2) (hw : NonNeg v1.g)
+    (hg : SameArcs v1.g v2.g) (s : Nat) (goal : Nat → Bool) (h1 h2 : Nat → Int)
+    (ha1 : Admissible v1.g goal h1) (ha2 : Admissible v2.g goal h2) (f1 f2 : Nat)
+    (hf1 : astarBound v1.g s ≤ f1) (hf2 : astarBound v2.g s ≤ f2) :
+    (SP.astar pop1 v1 s goal h1 f1 = .notFound ↔ SP.astar pop2 v2 s goal h2 f2 = .notFound) ∧
+    ∀ c1 p1 c2 p2, SP.astar pop1 v1 s goal h1 f1 = .found c1 p1 →
+      SP.astar pop2 v2 s goal h2 f2 = .found c2 p2 → c1 = c2 := by
+  have hw2 : NonNeg v2.g := nonNeg_congr hg hw
+  have A1 := astar_cost_spec pop1 hp1 v1 hv1 hw s goal h1 ha1 f1 hf1
+  have A2 := astar_cost_spec pop2 hp2 v2 hv2 hw2 s goal h2 ha2 f2 hf2
+  rcases A1 with ⟨e1, n1⟩ | ⟨c1, p1, e1, ⟨t1, g1, w1⟩, o1⟩ <;>
+    rcases A2 with ⟨e2, n2⟩ | ⟨c2, p2, e2, ⟨t2, g2, w2⟩, o2⟩
+  · refine ⟨⟨fun _ => e2, fun _ => e1⟩, ?_⟩
+    intro c1 p1 c2 p2 hc; rw [e1] at hc; cases hc
+  · exfalso
+    exact n1 t2 g2 ((DistProofs.walk_iff_reach _ _ _).mp ⟨c2, (walkCost_congr hg).mpr w2⟩)
+  · exfalso
+    exact n2 t1 g1 ((DistProofs.walk_iff_reach _ _ _).mp ⟨c1, (walkCost_congr hg).mp w1⟩)
+  · refine ⟨⟨fun h => (by rw [e1] at h; cases h), fun h => (by rw [e2] at h; cases h)⟩, ?_⟩
+    intro c1' p1' c2' p2' hc1 hc2
+    rw [e1] at hc1; rw [e2] at hc2
+    cases hc1; cases hc2
+    have le1 : c2 ≤ c1 := o2 t1 c1 g1 ((walkCost_congr hg).mp w1)
+    have le2 : c1 ≤ c2 := o1 t2 c2 g2 ((walkCost_congr hg).mpr w2)
+    omega
+
+end C10
+
+/-! ## C11 — bellman_ford, spfa, floyd_warshall -/
+section C11
+open PetgraphModel.C11M PetgraphModel.C11MP PetgraphModel.C11P PetgraphModel.C07W2
+
+theorem C07_negcycle_relabel (φ : Nat → Nat) (hφ : ∀ x y, φ x = φ y → x = y) (g : MGraph) (s : Nat) :
+    (NegCycleReachable (relabel φ g) (φ s) ↔ NegCycleReachable g s) ∧ (NegCycle (relabel φ g) ↔ NegCycle g) :=
+  ⟨negCycleReachable_relabel_iff hφ g s, negCycle_relabel_iff hφ g⟩
+
+theorem C07_negcycle_presentation (g1 g2 : MGraph) (h : SameArcs g1 g2) (s : Nat) :
+    (NegCycleReachable g1 s ↔ NegCycleReachable g2 s) ∧ (NegCycle g1 ↔ NegCycle g2) :=
+  ⟨negCycleReachable_congr h s, negCycle_congr h⟩
+
+/-- the distance table of an `Ok` result of the `bellman_ford` model is exactly the shortest-walk costs -/
+theorem bellman_ford_exact (v : View) (hv : C11MP.ViewArcs v) (s : Nat) (st : BF)
+    (h : bellmanFord v s = some st) : ∀ x y, tget st.d x = some y ↔ IsShortest v.g s x y :=
+  let r := C11T.C11_bellman_ford_ok v hv s st h
+  exact_of_sound_total (get := fun x => tget st.d x) r.1 r.2.1
+
+/-- **bellman_ford respects isomorphism**: if the second view presents the arcs of the first graph
+renamed by an injective `φ`, then both runs err or both answer `Ok` (the verdict is "a negative cycle is
+reachable", a property of the abstract graph), and the `Ok` distance tables correspond under `φ`.
+(The predecessor tables are each a shortest-path tree — `C11_bellman_ford_tree` — but ties between
+equally short paths may be resolved differently.) -/
+theorem C07_bellman_ford_respects_iso (φ : Nat → Nat) (hφ : ∀ x y, φ x = φ y → x = y)
+    (v1 v2 : View) (hv1 : C11MP.ViewArcs v1) (hv2 : C11MP.ViewArcs v2)
+    (hwf1 : v1.g.WellFormed) (hwf2 : v2.g.WellFormed)
+    (hg : SameArcs v2.g (relabel φ v1.g)) (s : Nat) (hs1 : s ∈ v1.g.nodes) (hs2 : φ s ∈ v2.g.nodes) :
+    (bellmanFord v1 s = none ↔ bellmanFord v2 (φ s) = none) ∧
+    ∀ st1 st2, bellmanFord v1 s = some st1 → bellmanFord v2 (φ s) = some st2 →
+      (∀ x, tget st2.d (φ x) = tget st1.d x) ∧ (∀ y c, tget st2.d y = some c → ∃ x, y = φ x) := by
+  refine ⟨?_, fun st1 st2 r1 r2 => ⟨fun x => ?_, fun y c hy => ?_⟩⟩
+  · rw [C11T.C11_bellman_ford_err_iff v1 hv1 hwf1 s hs1, C11T.C11_bellman_ford_err_iff v2 hv2 hwf2 (φ s) hs2]
+    exact ((negCycleReachable_congr hg (φ s)).trans (negCycleReachable_relabel_iff hφ v1.g s)).symm
+  · exact opt_eq_of_spec
+      (fun d => ((bellman_ford_exact v2 hv2 (φ s) st2 r2 (φ x) d).trans (isShortest_congr hg)).trans
+        (isShortest_relabel_iff v1.g hφ))
+      (fun d => bellman_ford_exact v1 hv1 s st1 r1 x d)
+  · have hsh := ((bellman_ford_exact v2 hv2 (φ s) st2 r2 y c).mp hy).1
+    obtain ⟨b, hb, _⟩ := walkCost_relabel_inv v1.g hφ ((walkCost_congr hg).mp hsh)
+    exact ⟨b, hb⟩
+
+/-- **bellman_ford, encoding independence**: two views of two presentations of the same weighted arcs. -/
+theorem C07_bellman_ford_encoding_independent
+    (v1 v2 : View) (hv1 : C11MP.ViewArcs v1) (hv2 : C11MP.ViewArcs v2)
+    (hwf1 : v1.g.WellFormed) (hwf2 : v2.g.WellFormed)
+    (hg : SameArcs v1.g v2.g) (s : Nat) (hs1 : s ∈ v1.g.nodes) (hs2 : s ∈ v2.g.nodes) :
+    (bellmanFord v1 s = none ↔ bellmanFord v2 s = none) ∧
+    ∀ st1 st2, bellmanFord v1 s = some st1 → bellmanFord v2 s = some st2 →
+      ∀ x, tget st1.d x = tget st2.d x := by
+  refine ⟨?_, fun st1 st2 r1 r2 x => ?_⟩
+  · rw [C11T.C11_bellman_ford_err_iff v1 hv1 hwf1 s hs1, C11T.C11_bellman_ford_err_iff v2 hv2 hwf2 s hs2,
+      negCycleReachable_congr hg]
+  · exact opt_eq_of_spec (fun d => bellman_ford_exact v1 hv1 s st1 r1 x d)
+      (fun d => (bellman_ford_exact v2 hv2 s st2 r2 x d).trans (isShortest_congr hg).symm)
+
+/-- **find_negative_cycle respects isomorphism** in what is determined: `None` on one side iff `None`
+on the other (the shape of a returned sequence is the open finding D15). -/
+theorem C07_find_negative_cycle_respects_iso (φ : Nat → Nat) (hφ : ∀ x y, φ x = φ y → x = y)
+    (v1 v2 : View) (hv1 : C11MP.ViewArcs v1) (hv2 : C11MP.ViewArcs v2)
+    (hwf1 : v1.g.WellFormed) (hwf2 : v2.g.WellFormed)
+    (hg : SameArcs v2.g (relabel φ v1.g)) (s : Nat) (hs1 : s ∈ v1.g.nodes) (hs2 : φ s ∈ v2.g.nodes) :
+    findNegativeCycle v1 s = .none ↔ findNegativeCycle v2 (φ s) = .none := by
+  have h1 := C11T.C11_find_negative_cycle_some_iff v1 hv1 hwf1 s hs1
+  have h2 := C11T.C11_find_negative_cycle_some_iff v2 hv2 hwf2 (φ s) hs2
+  have h3 := (negCycleReachable_congr hg (φ s)).trans (negCycleReachable_relabel_iff hφ v1.g s)
+  constructor
+  · intro h; exact Classical.byContradiction fun hne => (h1.mpr (h3.mp (h2.mp hne))) h
+  · intro h; exact Classical.byContradiction fun hne => (h2.mpr (h3.mpr (h1.mp hne))) h
+
+/-- the distance table of an `Ok` result of the `spfa` model (under the no-overflow condition of
+`C11_spfa_ok`) is exactly the shortest-walk costs -/
+theorem spfa_exact (B : Meas) (hB : 0 < B.max) (v : View) (hv : C11MP.ViewArcs v) (s : Nat) (st : SP)
+    (h : spfa B v s = some (some st))
+    (hfit : ∀ a b w, (a, b, w) ∈ v.g.arcs → ∀ x, tget st.d a = some x → B.min ≤ x + w ∧ x + w < B.max) :
+    ∀ x y, tget st.d x = some y ↔ IsShortest v.g s x y :=
+  let r := C11T.C11_spfa_ok B hB v hv s st h hfit
+  exact_of_sound_total (get := fun x => tget st.d x) (fun x y hx => (r.1 x y hx).1) r.2.1
+
+/-- **spfa respects isomorphism** (any two cost types, each wide enough for its own result): the `Ok`
+distance tables correspond under `φ`. -/
+theorem C07_spfa_respects_iso (φ : Nat → Nat) (hφ : ∀ x y, φ x = φ y → x = y)
+    (B1 B2 : Meas) (hB1 : 0 < B1.max) (hB2 : 0 < B2.max)
+    (v1 v2 : View) (hv1 : C11MP.ViewArcs v1) (hv2 : C11MP.ViewArcs v2)
+    (hg : SameArcs v2.g (relabel φ v1.g)) (s : Nat) (st1 st2 : SP)
+    (r1 : spfa B1 v1 s = some (some st1)) (r2 : spfa B2 v2 (φ s) = some (some st2))
+    (hfit1 : ∀ a b w, (a, b, w) ∈ v1.g.arcs → ∀ x, tget st1.d a = some x → B1.min ≤ x + w ∧ x + w < B1.max)
+    (hfit2 : ∀ a b w, (a, b, w) ∈ v2.g.arcs → ∀ x, tget st2.d a = some x → B2.min ≤ x + w ∧ x + w < B2.max) :
+    (∀ x, tget st2.d (φ x) = tget st1.d x) ∧ (∀ y c, tget st2.d y = some c → ∃ x, y = φ x) := by
+  have E1 := spfa_exact B1 hB1 v1 hv1 s st1 r1 hfit1
+  have E2 := spfa_exact B2 hB2 v2 hv2 (φ s) st2 r2 hfit2
+  refine ⟨fun x => ?_, fun y c hy => ?_⟩
+  · exact opt_eq_of_spec
+      (fun d => ((E2 (φ x) d).trans (isShortest_congr hg)).trans (isShortest_relabel_iff v1.g hφ))
+      (fun d => E1 x d)
+  · obtain ⟨b, hb, _⟩ := walkCost_relabel_inv v1.g hφ ((walkCost_congr hg).mp ((E2 y c).mp hy).1)
+    exact ⟨b, hb⟩
+
+/-- **spfa, encoding independence** — and agreement with `bellman_ford` on any view of the same arcs. -/
+theorem C07_spfa_encoding_independent
+    (B1 B2 : Meas) (hB1 : 0 < B1.max) (hB2 : 0 < B2.max)
+    (v1 v2 : View) (hv1 : C11MP.ViewArcs v1) (hv2 : C11MP.ViewArcs v2)
+    (hg : SameArcs v1.g v2.g) (s : Nat) (st1 st2 : SP)
+    (r1 : spfa B1 v1 s = some (some st1)) (r2 : spfa B2 v2 s = some (some st2))
+    (hfit1 : ∀ a b w, (a, b, w) ∈ v1.g.arcs → ∀ x, tget st1.d a = some x → B1.min ≤ x + w ∧ x + w < B1.max)
+    (hfit2 : ∀ a b w, (a, b, w) ∈ v2.g.arcs → ∀ x, tget st2.d a = some x → B2.min ≤ x + w ∧ x + w < B2.max) :
+    (∀ x, tget st1.d x = tget st2.d x) ∧
+    ∀ v3 (_ : C11MP.ViewArcs v3) (_ : SameArcs v1.g v3.g) st3, bellmanFord v3 s = some st3 →
+      ∀ x, tget st1.d x = tget st3.d x := by
+  have E1 := spfa_exact B1 hB1 v1 hv1 s st1 r1 hfit1
+  have E2 := spfa_exact B2 hB2 v2 hv2 s st2 r2 hfit2
+  refine ⟨fun x => ?_, fun v3 hv3 hg3 st3 r3 x => ?_⟩
+  · exact opt_eq_of_spec (fun d => E1 x d) (fun d => (E2 x d).trans (isShortest_congr hg).symm)
+  · exact opt_eq_of_spec (fun d => E1 x d)
+      (fun d => (bellman_ford_exact v3 hv3 s st3 r3 x d).trans (isShortest_congr hg3).symm)
+
+/-- **spfa's verdict respects isomorphism**: under the hypotheses of `C11_spfa_err` for the first run
+and of `C11_spfa_ok` for the second, it cannot be that the first reports `NegativeCycle` while the
+second answers `Ok`. -/
+theorem C07_spfa_verdict_respects_iso (φ : Nat → Nat) (hφ : ∀ x y, φ x = φ y → x = y)
+    (B1 B2 : Meas) (hB2 : 0 < B2.max)
+    (v1 v2 : View) (hv1 : C11MP.ViewArcs v1) (hv2 : C11MP.ViewArcs v2) (hwf1 : v1.g.WellFormed)
+    (hg : SameArcs v2.g (relabel φ v1.g)) (s : Nat) (hs : s ∈ v1.g.nodes) (hnb : v1.g.nodes.length ≤ v1.nb)
+    (hfitw : ∀ x c j, j ≤ v1.g.nodes.length → WalkN v1.g s x c j → B1.min ≤ c ∧ c < B1.max)
+    (r1 : spfa B1 v1 s = some none) (st2 : SP) (r2 : spfa B2 v2 (φ s) = some (some st2))
+    (hfit2 : ∀ a b w, (a, b, w) ∈ v2.g.arcs → ∀ x, tget st2.d a = some x → B2.min ≤ x + w ∧ x + w < B2.max) :
+    False := by
+  have h1 := C11T.C11_spfa_err B1 v1 hv1 hwf1 s hs hnb hfitw r1
+  have h2 := (C11T.C11_spfa_ok B2 hB2 v2 hv2 (φ s) st2 r2 hfit2).2.2.1
+  exact h2 ((negCycleReachable_congr hg (φ s)).mpr ((negCycleReachable_relabel_iff hφ v1.g s).mpr h1))
+
+/-- the width hypothesis of `C11_floyd_ok` / `C11_floyd_err_iff`, bundled: the cost type is wide
+against `2^|V| · max |cost|` -/
+def FloydWide (B : Meas) (v : View) : Prop :=
+  ∃ Wm : Int, 0 ≤ Wm ∧ (∀ e ∈ v.g.edges, -Wm ≤ e.w ∧ e.w ≤ Wm) ∧
+    dbl v.g.nodes.length Wm + Wm < B.max ∧ B.min ≤ -(dbl v.g.nodes.length Wm)
+
+/-- row `i` of an `Ok` result of the `floyd_warshall` model is exactly the shortest-walk costs from `i` -/
+theorem floyd_exact (B : Meas) (v : View) (hwf : v.g.WellFormed) (hwide : FloydWide B v) (st : FW)
+    (h : floydWarshall B v = some st) (i : Nat) (hi : i ∈ v.g.nodes) :
+    ∀ j y, tget st.d (i, j) = some y ↔ IsShortest v.g i j y := by
+  obtain ⟨Wm, hWm, hW, hfit⟩ := hwide
+  have r := C11T.C11_floyd_ok B v hwf Wm hWm hW hfit st h i hi
+  exact exact_of_sound_total (get := fun j => tget st.d (i, j)) r.1 r.2.1
+
+/-- **floyd_warshall respects isomorphism**: both runs err or both answer `Ok` (the verdict is "the
+graph has a negative cycle"), and the `Ok` matrices correspond under `φ` on every row of a node. -/
+theorem C07_floyd_warshall_respects_iso (φ : Nat → Nat) (hφ : ∀ x y, φ x = φ y → x = y)
+    (B1 B2 : Meas) (v1 v2 : View) (hwf1 : v1.g.WellFormed) (hwf2 : v2.g.WellFormed)
+    (hwide1 : FloydWide B1 v1) (hwide2 : FloydWide B2 v2) (hg : SameArcs v2.g (relabel φ v1.g)) :
+    (floydWarshall B1 v1 = none ↔ floydWarshall B2 v2 = none) ∧
+    ∀ st1 st2, floydWarshall B1 v1 = some st1 → floydWarshall B2 v2 = some st2 →
+      ∀ i, i ∈ v1.g.nodes → φ i ∈ v2.g.nodes → ∀ j, tget st2.d (φ i, φ j) = tget st1.d (i, j) := by
+  refine ⟨?_, fun st1 st2 r1 r2 i hi1 hi2 j => ?_⟩
+  · obtain ⟨Wm1, hWm1, hW1, hfit1⟩ := hwide1
+    obtain ⟨Wm2, hWm2, hW2, hfit2⟩ := hwide2
+    rw [C11T.C11_floyd_err_iff B1 v1 hwf1 Wm1 hWm1 hW1 hfit1, C11T.C11_floyd_err_iff B2 v2 hwf2 Wm2 hWm2 hW2 hfit2]
+    exact ((negCycle_congr hg).trans (negCycle_relabel_iff hφ v1.g)).symm
+  · exact opt_eq_of_spec
+      (fun d => ((floyd_exact B2 v2 hwf2 hwide2 st2 r2 (φ i) hi2 (φ j) d).trans (isShortest_congr hg)).trans
+        (isShortest_relabel_iff v1.g hφ))
+      (fun d => floyd_exact B1 v1 hwf1 hwide1 st1 r1 i hi1 j d)
+
+/-- **floyd_warshall, encoding independence**. -/
+theorem C07_floyd_warshall_encoding_independent
+    (B1 B2 : Meas) (v1 v2 : View) (hwf1 : v1.g.WellFormed) (hwf2 : v2.g.WellFormed)
+    (hwide1 : FloydWide B1 v1) (hwide2 : FloydWide B2 v2) (hg : SameArcs v1.g v2.g) :
+    (floydWarshall B1 v1 = none ↔ floydWarshall B2 v2 = none) ∧
+    ∀ st1 st2, floydWarshall B1 v1 = some st1 → floydWarshall B2 v2 = some st2 →
+      ∀ i, i ∈ v1.g.nodes → i ∈ v2.g.nodes → ∀ j, tget st1.d (i, j) = tget st2.d (i, j) := by
+  refine ⟨?_, fun st1 st2 r1 r2 i hi1 hi2 j => ?_⟩
+  · obtain ⟨Wm1, hWm1, hW1, hfit1⟩ := hwide1
+    obtain ⟨Wm2, hWm2, hW2, hfit2⟩ := hwide2
+    rw [C11T.C11_floyd_err_iff B1 v1 hwf1 Wm1 hWm1 hW1 hfit1, C11T.C11_floyd_err_iff B2 v2 hwf2 Wm2 hWm2 hW2 hfit2,
+      negCycle_congr hg]
+  · exact opt_eq_of_spec (fun d => floyd_exact B1 v1 hwf1 hwide1 st1 r1 i hi1 j d)
+      (fun d => (floyd_exact B2 v2 hwf2 hwide2 st2 r2 i hi2 j d).trans (isShortest_congr hg).symm)
+
+/-- floyd_warshall's row `s` agrees with bellman_ford from `s` on any views of the same arcs -/
+theorem C07_floyd_agrees_with_bellman_ford (B : Meas) (v1 v2 : View) (hwf1 : v1.g.WellFormed)
+    (hwide1 : FloydWide B v1) (hv2 : C11MP.ViewArcs v2) (hg : SameArcs v1.g v2.g) (s : Nat)
+    (hs : s ∈ v1.g.nodes) (st1 : FW) (st2 : BF) (r1 : floydWarshall B v1 = some st1)
+    (r2 : bellmanFord v2 s = some st2) : ∀ x, tget st1.d (s, x) = tget st2.d x := by
+  intro x
+  exact opt_eq_of_spec (fun d => floyd_exact B v1 hwf1 hwide1 st1 r1 s hs x d)
+    (fun d => (bellman_ford_exact v2 hv2 s st2 r2 x d).trans (isShortest_congr hg).symm)
+
+end C11
+
+/-! ## C09 — has_path_connecting, kosaraju_scc, toposort, is_cyclic_*, connected_components -/
+section C09
+open PetgraphModel.C09J PetgraphModel.C09M PetgraphModel.C07W2
+
+theorem bool_eq_of_iff {b1 b2 : Bool} {P : Prop} (h1 : b1 = true ↔ P) (h2 : b2 = true ↔ P) : b1 = b2 := by
+  cases b1 <;> cases b2 <;> simp_all
+
+/-- the SCC answer of `g`, renamed, is an SCC answer of the renamed graph (classes of mutual
+reachability, reverse topological order of the components) -/
+theorem C07_scc_relabel (φ : Nat → Nat) (hφ : ∀ x y, φ x = φ y → x = y) (g : MGraph) (comps : List (List Nat))
+    (h : SccSpec g comps) : SccSpec (relabel φ g) (comps.map (List.map φ)) :=
+  sccSpec_relabel hφ h
+
+theorem C07_topo_order_relabel (φ : Nat → Nat) (hφ : ∀ x y, φ x = φ y → x = y) (g : MGraph) (ord : List Nat)
+    (h : TopoOrder g ord) : TopoOrder (relabel φ g) (ord.map φ) :=
+  topoOrder_relabel hφ h
+
+theorem C07_cyclic_relabel (φ : Nat → Nat) (hφ : ∀ x y, φ x = φ y → x = y) (g : MGraph) :
+    (CyclicD (relabel φ g) ↔ CyclicD g) ∧ (CyclicU (relabel φ g) ↔ CyclicU g) :=
+  ⟨cyclicD_relabel_iff hφ g, cyclicU_relabel_iff hφ g⟩
+
+/-- `CyclicU` does not depend on the order of insertion of the edges -/
+theorem C07_cyclic_undirected_insertion_order (g1 g2 : MGraph) (h : g1.edges.Perm g2.edges) :
+    CyclicU g1 ↔ CyclicU g2 :=
+  cyclicU_perm_iff h
+
+theorem C07_wcc_count_relabel (φ : Nat → Nat) (hφ : ∀ x y, φ x = φ y → x = y) (g : MGraph) (k : Nat) :
+    IsWccCount (relabel φ g) k ↔ IsWccCount g k :=
+  isWccCount_relabel_iff hφ g k
+
+theorem C07_two_colourable_relabel (φ : Nat → Nat) (hφ : ∀ x y, φ x = φ y → x = y) (g : MGraph) (s : Nat) :
+    TwoCol (relabel φ g) (φ s) ↔ TwoCol g s :=
+  twoCol_relabel_iff hφ g s
+
+/-- **has_path_connecting respects isomorphism**: same answer for `(a, b)` on any view of `g` and for
+`(φ a, φ b)` on any view of any presentation of the renamed graph. -/
+theorem C07_has_path_respects_iso (φ : Nat → Nat) (hφ : ∀ x y, φ x = φ y → x = y)
+    (v1 v2 : View) (hv1 : C09P.ViewOk v1) (hv2 : C09P.ViewOk v2) (hg : SameAdj v2.g (relabel φ v1.g))
+    (a b : Nat) (r1 r2 : Bool) (h1 : hasPath v1 a b = some r1) (h2 : hasPath v2 (φ a) (φ b) = some r2) :
+    r1 = r2 :=
+  bool_eq_of_iff (C09T.C09_has_path v1 hv1 a b r1 h1)
+    ((C09T.C09_has_path v2 hv2 (φ a) (φ b) r2 h2).trans ((C07W2.reach_congr hg).trans (reach_relabel_iff v1.g hφ)))
+
+theorem C07_has_path_encoding_independent
+    (v1 v2 : View) (hv1 : C09P.ViewOk v1) (hv2 : C09P.ViewOk v2) (hg : SameAdj v1.g v2.g)
+    (a b : Nat) (r1 r2 : Bool) (h1 : hasPath v1 a b = some r1) (h2 : hasPath v2 a b = some r2) :
+    r1 = r2 :=
+  bool_eq_of_iff (C09T.C09_has_path v1 hv1 a b r1 h1)
+    ((C09T.C09_has_path v2 hv2 a b r2 h2).trans (C07W2.reach_congr hg).symm)
+
+/-- **kosaraju_scc respects isomorphism**: the first answer, renamed, is a correct answer for the second
+graph, and the two answers are the same partition: `x`, `y` share a component of the first answer iff
+`φ x`, `φ y` share one of the second.  (Order of the components among incomparable ones and of the
+members inside a component depend on the iteration order.) -/
+theorem C07_kosaraju_respects_iso (φ : Nat → Nat) (hφ : ∀ x y, φ x = φ y → x = y)
+    (v1 v2 : View) (hv1 : C09P.ViewOk v1) (hv2 : C09P.ViewOk v2)
+    (hp1 : ∀ a b, b ∈ v1.pred a ↔ v1.g.Adj b a) (hp2 : ∀ a b, b ∈ v2.pred a ↔ v2.g.Adj b a)
+    (hwf1 : v1.g.WellFormed) (hwf2 : v2.g.WellFormed)
+    (hn : SameNodes v2.g (relabel φ v1.g)) (hg : SameAdj v2.g (relabel φ v1.g))
+    (comps1 comps2 : List (List Nat)) (h1 : kosaraju v1 = some comps1) (h2 : kosaraju v2 = some comps2) :
+    SccSpec v2.g (comps1.map (List.map φ)) ∧
+    ∀ x y, (∃ c ∈ comps1, x ∈ c ∧ y ∈ c) ↔ (∃ c ∈ comps2, φ x ∈ c ∧ φ y ∈ c) := by
+  have S1 := C09T.C09_kosaraju v1 hv1 hp1 hwf1 comps1 h1
+  have S2 := C09T.C09_kosaraju v2 hv2 hp2 hwf2 comps2 h2
+  refine ⟨sccSpec_congr hn.symm hg.symm (sccSpec_relabel hφ S1), fun x y => ?_⟩
+  rw [C09P.part_same_iff (C09P.SccSpec.toPart S1), C09P.part_same_iff (C09P.SccSpec.toPart S2)]
+  have e1 : φ x ∈ v2.g.nodes ↔ x ∈ v1.g.nodes := (hn (φ x)).trans (mem_relabel_nodes v1.g hφ)
+  have e2 : SC v2.g (φ x) (φ y) ↔ SC v1.g x y := (sc_congr hg).trans (sc_relabel_iff hφ v1.g)
+  rw [e1, e2]
+
+theorem C07_kosaraju_encoding_independent
+    (v1 v2 : View) (hv1 : C09P.ViewOk v1) (hv2 : C09P.ViewOk v2)
+    (hp1 : ∀ a b, b ∈ v1.pred a ↔ v1.g.Adj b a) (hp2 : ∀ a b, b ∈ v2.pred a ↔ v2.g.Adj b a)
+    (hwf1 : v1.g.WellFormed) (hwf2 : v2.g.WellFormed)
+    (hn : SameNodes v1.g v2.g) (hg : SameAdj v1.g v2.g)
+    (comps1 comps2 : List (List Nat)) (h1 : kosaraju v1 = some comps1) (h2 : kosaraju v2 = some comps2) :
+    SccSpec v2.g comps1 ∧
+    ∀ x y, (∃ c ∈ comps1, x ∈ c ∧ y ∈ c) ↔ (∃ c ∈ comps2, x ∈ c ∧ y ∈ c) := by
+  have S1 := C09T.C09_kosaraju v1 hv1 hp1 hwf1 comps1 h1
+  have S2 := C09T.C09_kosaraju v2 hv2 hp2 hwf2 comps2 h2
+  refine ⟨sccSpec_congr hn hg S1, fun x y => ?_⟩
+  rw [C09P.part_same_iff (C09P.SccSpec.toPart S1), C09P.part_same_iff (C09P.SccSpec.toPart S2),
+    hn x, sc_congr hg]
+
+/-- `toposort` answers `Ok` exactly on acyclic graphs -/
+theorem toposort_ok_iff (v : View) (hv : C09P.ViewOk v) (hp : ∀ a b, b ∈ v.pred a ↔ v.g.Adj b a)
+    (hwf : v.g.WellFormed) (r : TopoRes) (h : toposort v = some r) : (∃ o, r = .ok o) ↔ ¬ CyclicD v.g := by
+  have T := C09T.C09_toposort v hv hp hwf r h
+  cases r with
+  | ok o => exact ⟨fun _ => T.2, fun _ => ⟨o, rfl⟩⟩
+  | cycle x => exact ⟨fun ⟨o, ho⟩ => (by cases ho), fun hn => absurd T.2 hn⟩
+
+/-- **toposort respects isomorphism**: both runs accept (`Ok`) or both reject (`Err(Cycle)`), and an
+accepted order of the first run, renamed, is a topological order of the second graph (as is the
+second run's own order — topological orders are not unique). -/
+theorem C07_toposort_respects_iso (φ : Nat → Nat) (hφ : ∀ x y, φ x = φ y → x = y)
+    (v1 v2 : View) (hv1 : C09P.ViewOk v1) (hv2 : C09P.ViewOk v2)
+    (hp1 : ∀ a b, b ∈ v1.pred a ↔ v1.g.Adj b a) (hp2 : ∀ a b, b ∈ v2.pred a ↔ v2.g.Adj b a)
+    (hwf1 : v1.g.WellFormed) (hwf2 : v2.g.WellFormed)
+    (hn : SameNodes v2.g (relabel φ v1.g)) (hg : SameAdj v2.g (relabel φ v1.g))
+    (r1 r2 : TopoRes) (h1 : toposort v1 = some r1) (h2 : toposort v2 = some r2) :
+    ((∃ o, r1 = .ok o) ↔ (∃ o, r2 = .ok o)) ∧
+    (∀ o, r1 = .ok o → TopoOrder v2.g (o.map φ)) ∧
+    (∀ x, r1 = .cycle x → Reach1 v2.g (φ x) (φ x)) := by
+  refine ⟨?_, ?_, ?_⟩
+  · rw [toposort_ok_iff v1 hv1 hp1 hwf1 r1 h1, toposort_ok_iff v2 hv2 hp2 hwf2 r2 h2]
+    exact not_congr ((cyclicD_congr hg).trans (cyclicD_relabel_iff hφ v1.g)).symm
+  · intro o ho
+    subst ho
+    exact topoOrder_congr hn.symm hg.symm (topoOrder_relabel hφ (C09T.C09_toposort_ok v1 hv1 hp1 hwf1 o h1).1)
+  · intro x hx
+    subst hx
+    exact (reach1_congr hg).mpr (reach1_relabel φ v1.g (C09T.C09_toposort_cycle v1 hv1 hp1 hwf1 x h1).1)
+
+theorem C07_toposort_encoding_independent
+    (v1 v2 : View) (hv1 : C09P.ViewOk v1) (hv2 : C09P.ViewOk v2)
+    (hp1 : ∀ a b, b ∈ v1.pred a ↔ v1.g.Adj b a) (hp2 : ∀ a b, b ∈ v2.pred a ↔ v2.g.Adj b a)
+    (hwf1 : v1.g.WellFormed) (hwf2 : v2.g.WellFormed)
+    (hn : SameNodes v1.g v2.g) (hg : SameAdj v1.g v2.g)
+    (r1 r2 : TopoRes) (h1 : toposort v1 = some r1) (h2 : toposort v2 = some r2) :
+    ((∃ o, r1 = .ok o) ↔ (∃ o, r2 = .ok o)) ∧ (∀ o, r1 = .ok o → TopoOrder v2.g o) := by
+  refine ⟨?_, ?_⟩
+  · rw [toposort_ok_iff v1 hv1 hp1 hwf1 r1 h1, toposort_ok_iff v2 hv2 hp2 hwf2 r2 h2, cyclicD_congr hg]
+  · intro o ho
+    subst ho
+    exact topoOrder_congr hn hg (C09T.C09_toposort_ok v1 hv1 hp1 hwf1 o h1).1
+
+/-- **is_cyclic_directed respects isomorphism** -/
+theorem C07_cyclic_directed_respects_iso (φ : Nat → Nat) (hφ : ∀ x y, φ x = φ y → x = y)
+    (v1 v2 : View) (hv1 : C09P.ViewOk v1) (hv2 : C09P.ViewOk v2)
+    (hwf1 : v1.g.WellFormed) (hwf2 : v2.g.WellFormed) (hg : SameAdj v2.g (relabel φ v1.g))
+    (b1 b2 : Bool) (h1 : cyclicDirected v1 = some b1) (h2 : cyclicDirected v2 = some b2) : b1 = b2 := by
+  have C1 := C09T.C09_cyclic_directed v1 hv1 b1 h1
+  have C2 := C09T.C09_cyclic_directed v2 hv2 b2 h2
+  have e : CyclicD v2.g ↔ CyclicD v1.g := (cyclicD_congr hg).trans (cyclicD_relabel_iff hφ v1.g)
+  have i1 : b1 = true ↔ CyclicD v1.g :=
+    ⟨C1.1, fun hc => by cases hb : b1 with | true => rfl | false => exact absurd hc (C1.2 hb hwf1)⟩
+  have i2 : b2 = true ↔ CyclicD v2.g :=
+    ⟨C2.1, fun hc => by cases hb : b2 with | true => rfl | false => exact absurd hc (C2.2 hb hwf2)⟩
+  exact bool_eq_of_iff i1 (i2.trans e)
+
+theorem C07_cyclic_directed_encoding_independent
+    (v1 v2 : View) (hv1 : C09P.ViewOk v1) (hv2 : C09P.ViewOk v2)
+    (hwf1 : v1.g.WellFormed) (hwf2 : v2.g.WellFormed) (hg : SameAdj v1.g v2.g)
+    (b1 b2 : Bool) (h1 : cyclicDirected v1 = some b1) (h2 : cyclicDirected v2 = some b2) : b1 = b2 := by
+  have C1 := C09T.C09_cyclic_directed v1 hv1 b1 h1
+  have C2 := C09T.C09_cyclic_directed v2 hv2 b2 h2
+  have i1 : b1 = true ↔ CyclicD v1.g :=
+    ⟨C1.1, fun hc => by cases hb : b1 with | true => rfl | false => exact absurd hc (C1.2 hb hwf1)⟩
+  have i2 : b2 = true ↔ CyclicD v2.g :=
+    ⟨C2.1, fun hc => by cases hb : b2 with | true => rfl | false => exact absurd hc (C2.2 hb hwf2)⟩
+  exact bool_eq_of_iff i1 (i2.trans (cyclicD_congr hg).symm)
+
+/-- **is_bipartite_undirected respects isomorphism** -/
+theorem C07_bipartite_respects_iso (φ : Nat → Nat) (hφ : ∀ x y, φ x = φ y → x = y)
+    (v1 v2 : View) (hv1 : C09P.ViewOk v1) (hv2 : C09P.ViewOk v2) (hg : SameAdj v2.g (relabel φ v1.g))
+    (s : Nat) (b1 b2 : Bool) (h1 : bipartite v1 s = .answer b1) (h2 : bipartite v2 (φ s) = .answer b2) :
+    b1 = b2 :=
+  bool_eq_of_iff ((C09T.C09_bipartite v1 hv1 s).1 b1 h1)
+    (((C09T.C09_bipartite v2 hv2 (φ s)).1 b2 h2).trans ((twoCol_congr hg (φ s)).trans (twoCol_relabel_iff hφ v1.g s)))
+
+/-- **connected_components computes the number of weakly connected components of the abstract graph
+through ANY compact index assignment**: if the graph the function sees through `to_index` and
+`edge_references()` (`pairGraph nb pairs`: nodes `0..node_bound`, one undirected edge per reported
+pair) is the abstract graph `g` renamed by an injective `ix` — same node set, same adjacency with
+direction ignored — the answer is the WCC count of `g`.  (`SameNodes` forces `0..node_bound` to be
+exactly the image of the nodes: no vacant index; with vacancies the real function counts every vacant
+index as a component.) -/
+theorem C07_connected_components_respects_iso (g : MGraph) (ix : Nat → Nat) (hix : ∀ x y, ix x = ix y → x = y)
+    (nb : Nat) (pairs : List (Nat × Nat)) (hin : ∀ p ∈ pairs, p.1 < nb ∧ p.2 < nb)
+    (hn : SameNodes (C09P.pairGraph nb pairs) (relabel ix g))
+    (ha : SameAdj (C09P.pairGraph nb pairs) (relabel ix g).undirect)
+    (k : Nat) (h : connectedComponents nb pairs = some k) : IsWccCount g k := by
+  have K := C09T.C09_connected_components nb pairs k hin h
+  have K2 : IsWccCount (relabel ix g).undirect k := isWccCount_congr (g2 := (relabel ix g).undirect) hn ha K
+  exact isWccCount_relabel_inv hix (show IsWccCount (relabel ix g) k from K2)
+
+/-- consequently two compact encodings (any two index assignments, any order and orientation of the
+reported pairs) of the same abstract graph get the same count -/
+theorem C07_connected_components_encoding_independent (g : MGraph)
+    (ix1 ix2 : Nat → Nat) (hix1 : ∀ x y, ix1 x = ix1 y → x = y) (hix2 : ∀ x y, ix2 x = ix2 y → x = y)
+    (nb1 nb2 : Nat) (pairs1 pairs2 : List (Nat × Nat))
+    (hin1 : ∀ p ∈ pairs1, p.1 < nb1 ∧ p.2 < nb1) (hin2 : ∀ p ∈ pairs2, p.1 < nb2 ∧ p.2 < nb2)
+    (hn1 : SameNodes (C09P.pairGraph nb1 pairs1) (relabel ix1 g))
+    (ha1 : SameAdj (C09P.pairGraph nb1 pairs1) (relabel ix1 g).undirect)
+    (hn2 : SameNodes (C09P.pairGraph nb2 pairs2) (relabel ix2 g))
+    (ha2 : SameAdj (C09P.pairGraph nb2 pairs2) (relabel ix2 g).undirect)
+    (k1 k2 : Nat) (h1 : connectedComponents nb1 pairs1 = some k1) (h2 : connectedComponents nb2 pairs2 = some k2) :
+    k1 = k2 :=
+  C09T.C09_wcc_count_unique g k1 k2
+    (C07_connected_components_respects_iso g ix1 hix1 nb1 pairs1 hin1 hn1 ha1 k1 h1)
+    (C07_connected_components_respects_iso g ix2 hix2 nb2 pairs2 hin2 hn2 ha2 k2 h2)
+
+/-- **is_cyclic_undirected respects isomorphism, index width, vacancies and insertion order**: if the
+pairs the second encoding reports are a rearrangement of the first encoding's pairs renamed by an
+injective `φ` (the two `node_bound`s are unrelated), the answers coincide. -/
+theorem C07_cyclic_undirected_respects_iso (φ : Nat → Nat) (hφ : ∀ x y, φ x = φ y → x = y)
+    (nb1 nb2 : Nat) (pairs1 pairs2 : List (Nat × Nat))
+    (hin1 : ∀ p ∈ pairs1, p.1 < nb1 ∧ p.2 < nb1) (hin2 : ∀ p ∈ pairs2, p.1 < nb2 ∧ p.2 < nb2)
+    (hp : pairs2.Perm (pairs1.map fun p => (φ p.1, φ p.2))) (b1 b2 : Bool)
+    (h1 : cyclicUndirected nb1 pairs1 (UF.new 0 nb1) = some b1)
+    (h2 : cyclicUndirected nb2 pairs2 (UF.new 0 nb2) = some b2) : b1 = b2 := by
+  have C1 := C09T.C09_cyclic_undirected nb1 pairs1 b1 hin1 h1
+  have C2 := C09T.C09_cyclic_undirected nb2 pairs2 b2 hin2 h2
+  have hperm : (C09P.pairGraph nb2 pairs2).edges.Perm (relabel φ (C09P.pairGraph nb1 pairs1)).edges := by
+    have := hp.map fun p : Nat × Nat => (⟨0, p.1, p.2, 0⟩ : Edge)
+    simpa [C09P.pairGraph, relabel, List.map_map, Function.comp_def] using this
+  exact bool_eq_of_iff C1 (C2.trans ((cyclicU_perm_iff hperm).trans (cyclicU_relabel_iff hφ _)))
+
+end C09
+
+/-! ## C12 — min_spanning_tree (Kruskal), min_spanning_tree_prim -/
+section C12
+open PetgraphModel.MST PetgraphModel.MstModel PetgraphModel.C07W2
+
+/-- **`MinSpanningForest` is carried along by an injective relabeling**, together with its weight -/
+theorem C07_min_spanning_forest_relabel (φ : Nat → Nat) (hφ : ∀ x y, φ x = φ y → x = y) (E M : List Edge)
+    (h : MinSpanningForest E M) :
+    MinSpanningForest (E.map (rl φ)) (M.map (rl φ)) ∧ weight (M.map (rl φ)) = weight M :=
+  ⟨minSpanningForest_map_rl hφ h, weight_map_rl φ M⟩
+
+/-- all minimum spanning forests of the same edges weigh the same -/
+theorem C07_min_spanning_forest_weight_unique (E M M' : List Edge) (h : MinSpanningForest E M)
+    (h' : MinSpanningForest E M') : weight M = weight M' :=
+  minSpanningForest_weight_unique h h'
+
+/-- **bottleneck forests are unique up to weight, across presentations and relabelings**: if `E2` has
+the same undirected weighted edges as `E1` renamed by an injective `φ` (ids, orientation, order,
+multiplicity free), an acyclic `M1 ⊆ E1` realising every bottleneck connection of `E1` and an
+acyclic `M2 ⊆ E2` doing so for `E2` have the same number of edges and the same weight. -/
+theorem C07_light_forest_relabel (φ : Nat → Nat) (hφ : ∀ x y, φ x = φ y → x = y) (E1 E2 M1 M2 : List Edge)
+    (hE : SameUEdges E2 (E1.map (rl φ)))
+    (hac1 : Acyclic M1) (hl1 : Light E1 M1) (hf1 : FromE E1 M1)
+    (hac2 : Acyclic M2) (hl2 : Light E2 M2) (hf2 : FromE E2 M2) :
+    M1.length = M2.length ∧ weight M1 = weight M2 :=
+  light_forests_iso hφ hE hac1 hl1 hf1 hac2 hl2 hf2
+
+theorem res_ok_inj {n1 n2 : List Nat} {e1 e2 : List EdgeEl} (h : Res.ok n1 e1 = Res.ok n2 e2) :
+    n1 = n2 ∧ e1 = e2 := by
+  cases h; exact ⟨rfl, rfl⟩
+
+/-- **min_spanning_tree respects isomorphism**: if the second graph's edges are, as undirected
+weighted edges, the first graph's renamed by an injective `φ` (any ids, stored orientation, insertion
+order; `er1`/`er2` any `edge_references` orders, even with repetitions as in `Csr<Undirected>`; any
+two index assignments), the two emitted forests have the same number of edges and the same total
+weight.  (Which of several minimum spanning forests is emitted depends on the heap's tie order.) -/
+theorem C07_kruskal_respects_iso (φ : Nat → Nat) (hφ : ∀ x y, φ x = φ y → x = y)
+    (v1 v2 : View) (hv1 : KView v1) (hv2 : KView v2) (hwf1 : v1.g.WellFormed) (hwf2 : v2.g.WellFormed)
+    (er1 er2 : List (Nat × Nat × Nat)) (her1 : ErOk v1 er1) (her2 : ErOk v2 er2)
+    (hE : SameUEdges v2.g.edges (relabel φ v1.g).edges)
+    (ns1 ns2 : List Nat) (es1 es2 : List EdgeEl)
+    (r1 : kruskal v1 er1 = .ok ns1 es1) (r2 : kruskal v2 er2 = .ok ns2 es2) :
+    es1.length = es2.length ∧ (es1.map (·.w)).sum = (es2.map (·.w)).sum := by
+  obtain ⟨A1, run1, ac1, l1, f1⟩ := kruskal_light v1 hv1 hwf1 er1 her1
+  obtain ⟨A2, run2, ac2, l2, f2⟩ := kruskal_light v2 hv2 hwf2 er2 her2
+  obtain ⟨-, rfl⟩ := res_ok_inj (run1.symm.trans r1)
+  obtain ⟨-, rfl⟩ := res_ok_inj (run2.symm.trans r2)
+  have := light_forests_iso hφ (E1 := v1.g.edges) (E2 := v2.g.edges) hE ac1 l1 f1 ac2 l2 f2
+  rw [weight_items_eq v1.g.nodes, weight_items_eq v2.g.nodes] at this
+  simpa using this
+
+/-- **min_spanning_tree, encoding independence** -/
+theorem C07_kruskal_encoding_independent
+    (v1 v2 : View) (hv1 : KView v1) (hv2 : KView v2) (hwf1 : v1.g.WellFormed) (hwf2 : v2.g.WellFormed)
+    (er1 er2 : List (Nat × Nat × Nat)) (her1 : ErOk v1 er1) (her2 : ErOk v2 er2)
+    (hE : SameUEdges v1.g.edges v2.g.edges)
+    (ns1 ns2 : List Nat) (es1 es2 : List EdgeEl)
+    (r1 : kruskal v1 er1 = .ok ns1 es1) (r2 : kruskal v2 er2 = .ok ns2 es2) :
+    es1.length = es2.length ∧ (es1.map (·.w)).sum = (es2.map (·.w)).sum := by
+  obtain ⟨A1, run1, ac1, l1, f1⟩ := kruskal_light v1 hv1 hwf1 er1 her1
+  obtain ⟨A2, run2, ac2, l2, f2⟩ := kruskal_light v2 hv2 hwf2 er2 her2
+  obtain ⟨-, rfl⟩ := res_ok_inj (run1.symm.trans r1)
+  obtain ⟨-, rfl⟩ := res_ok_inj (run2.symm.trans r2)
+  have := light_forests_unique (E := v2.g.edges) ac1 ac2 (Light.congr hE l1) (FromE.congr hE f1) l2 f2
+  rw [weight_items_eq v1.g.nodes, weight_items_eq v2.g.nodes] at this
+  simpa using this
+
+/-- **min_spanning_tree_prim respects isomorphism**: undirected graphs (`PView`), the first node of the
+second view is the image of the first node of the first: the two emitted trees (spanning trees of the
+first node's component) have the same number of edges and the same total weight. -/
+theorem C07_prim_respects_iso (φ : Nat → Nat) (hφ : ∀ x y, φ x = φ y → x = y)
+    (v1 v2 : View) (hv1 : PView v1) (hv2 : PView v2)
+    (hE : SameUEdges v2.g.edges (relabel φ v1.g).edges)
+    (s : Nat) (rest1 rest2 : List Nat) (hV1 : v1.g.nodes = s :: rest1) (hV2 : v2.g.nodes = φ s :: rest2)
+    (ns1 ns2 : List Nat) (es1 es2 : List EdgeEl)
+    (r1 : prim v1 = .ok ns1 es1) (r2 : prim v2 = .ok ns2 es2) :
+    es1.length = es2.length ∧ (es1.map (·.w)).sum = (es2.map (·.w)).sum := by
+  obtain ⟨A1, run1, ac1, h1⟩ := prim_light v1 hv1 s rest1 hV1
+  obtain ⟨A2, run2, ac2, h2⟩ := prim_light v2 hv2 (φ s) rest2 hV2
+  obtain ⟨-, rfl⟩ := res_ok_inj (run1.symm.trans r1)
+  obtain ⟨-, rfl⟩ := res_ok_inj (run2.symm.trans r2)
+  obtain ⟨_, _, T1⟩ := (C12T.C12_prim_model_correct v1 hv1).2 s rest1 hV1
+  obtain ⟨_, _, T2⟩ := (C12T.C12_prim_model_correct v2 hv2).2 (φ s) rest2 hV2
+  obtain ⟨comp1, _, hc1, _⟩ := T1.count
+  obtain ⟨comp2, _, hc2, _⟩ := T2.count
+  obtain ⟨l1, f1⟩ := h1 comp1 hc1
+  obtain ⟨l2, f2⟩ := h2 comp2 hc2
+  have hW := sameUEdges_within hφ (E1 := v1.g.edges) (E2 := v2.g.edges) hE hc1 hc2
+  have := light_forests_iso hφ hW ac1 l1 f1 ac2 l2 f2
+  rw [weight_items_eq v1.g.nodes, weight_items_eq v2.g.nodes] at this
+  simpa using this
+
+/-- **min_spanning_tree_prim, encoding independence** (same first node) -/
+theorem C07_prim_encoding_independent
+    (v1 v2 : View) (hv1 : PView v1) (hv2 : PView v2) (hE : SameUEdges v1.g.edges v2.g.edges)
+    (s : Nat) (rest1 rest2 : List Nat) (hV1 : v1.g.nodes = s :: rest1) (hV2 : v2.g.nodes = s :: rest2)
+    (ns1 ns2 : List Nat) (es1 es2 : List EdgeEl)
+    (r1 : prim v1 = .ok ns1 es1) (r2 : prim v2 = .ok ns2 es2) :
+    es1.length = es2.length ∧ (es1.map (·.w)).sum = (es2.map (·.w)).sum := by
+  have hE' : SameUEdges v2.g.edges (relabel id v1.g).edges := by
+    show SameUEdges v2.g.edges (v1.g.edges.map (rl id))
+    rw [map_rl_id]; exact hE.symm
+  exact C07_prim_respects_iso id (fun _ _ h => h) v1 v2 hv1 hv2 hE' s rest1 rest2 hV1 hV2 ns1 ns2 es1 es2 r1 r2
+
+/-- Prim's tree weighs the same as ANY bottleneck forest of the edges inside the first node's
+component (on every undirected view) — so its weight is a function of the abstract graph and the
+first node alone. -/
+theorem C07_prim_weight_is_component_msf_weight (v : View) (hv : PView v) (s : Nat) (rest : List Nat)
+    (hV : v.g.nodes = s :: rest) (ns : List Nat) (es : List EdgeEl) (r : prim v = .ok ns es)
+    (comp : List Nat) (hcomp : ∀ x, x ∈ comp ↔ Conn v.g.edges s x) (M : List Edge)
+    (hac : Acyclic M) (hl : Light (edgesWithin comp v.g.edges) M) (hf : FromE (edgesWithin comp v.g.edges) M) :
+    es.length = M.length ∧ (es.map (·.w)).sum = weight M := by
+  obtain ⟨A, run, ac, h⟩ := prim_light v hv s rest hV
+  obtain ⟨-, rfl⟩ := res_ok_inj (run.symm.trans r)
+  obtain ⟨l, f⟩ := h comp hcomp
+  have := light_forests_unique ac hac l f hl hf
+  rw [weight_items_eq v.g.nodes] at this
+  simpa using this
+
+end C12
+
+/-! ## C15 — ford_fulkerson -/
+section C15
+open PetgraphModel.C15 PetgraphModel.C15P PetgraphModel.C07W2
+
+theorem C07_cut_capacity_relabel (φ : Nat → Nat) (hφ : ∀ x y, φ x = φ y → x = y) (g : MGraph) (S : List Nat) :
+    cutCap (relabel φ g) (S.map φ) = cutCap g S :=
+  cutCap_relabel_map hφ g S
+
+/-- the capacity of a cut depends only on the multiset of `(src, tgt, capacity)` triples: edge ids and
+insertion order are irrelevant -/
+theorem C07_cut_capacity_presentation (g1 g2 : MGraph) (h : SameCaps g1 g2) (S : List Nat) :
+    cutCap g1 S = cutCap g2 S :=
+  cutCap_congr h S
+
+theorem C07_min_cut_value_relabel (φ : Nat → Nat) (hφ : ∀ x y, φ x = φ y → x = y) (g : MGraph) (s t : Nat) (c : Int) :
+    IsMinCutValue (relabel φ g) (φ s) (φ t) c ↔ IsMinCutValue g s t c :=
+  isMinCutValue_relabel_iff hφ g s t c
+
+theorem C07_max_flow_value_relabel (φ : Nat → Nat) (hφ : ∀ x y, φ x = φ y → x = y) (g : MGraph) (s t : Nat) (c : Int) :
+    IsMaxFlowValue (relabel φ g) (φ s) (φ t) c ↔ IsMaxFlowValue g s t c :=
+  isMaxFlowValue_relabel_iff hφ g s t c
+
+theorem C07_feasible_flow_relabel (φ : Nat → Nat) (hφ : ∀ x y, φ x = φ y → x = y) (g : MGraph) (s t : Nat)
+    (f : Nat → Int) :
+    (Feasible (relabel φ g) (φ s) (φ t) f ↔ Feasible g s t f) ∧ excess (relabel φ g) f (φ s) = excess g f s :=
+  ⟨feasible_relabel_iff hφ g s t f, excess_relabel hφ g f s⟩
+
+/-- the value the `ford_fulkerson` model returns is the min-cut value and the max-flow value of the
+abstract graph (restating `C15_flow_feasible` / `C15_flow_max` with the two specification notions) -/
+theorem ford_fulkerson_value (v : View) (hv : FlowView v) (hwf : v.g.WellFormed)
+    (hw : ∀ e ∈ v.g.edges, 0 ≤ e.w) (s t : Nat) (hne : s ≠ t) :
+    IsMinCutValue v.g s t (C15F.fordFulkerson v s t).maxFlow ∧
+    IsMaxFlowValue v.g s t (C15F.fordFulkerson v s t).maxFlow := by
+  obtain ⟨⟨S, _, hS, hc⟩, hmin, hmax⟩ := C15T.C15_flow_max v hv hwf hw s t hne
+  obtain ⟨_, hfeas, hval⟩ := C15T.C15_flow_feasible v hv hwf hw s t hne
+  exact ⟨⟨⟨S, hS, hc⟩, hmin⟩, ⟨⟨_, hfeas, hval.symm⟩, hmax⟩⟩
+
+/-- **ford_fulkerson respects isomorphism**: if the second network has the same multiset of capacitated
+arcs as the first renamed by an injective `φ` (any edge ids, any insertion order, any index
+assignment, any row order of the views), the returned maximum-flow values coincide.  (The flow
+tables themselves need not correspond: maximum flows are not unique; each is feasible and maximum by
+`C15_flow_feasible` / `C15_flow_max`.) -/
+theorem C07_ford_fulkerson_respects_iso (φ : Nat → Nat) (hφ : ∀ x y, φ x = φ y → x = y)
+    (v1 v2 : View) (hv1 : FlowView v1) (hv2 : FlowView v2) (hwf1 : v1.g.WellFormed) (hwf2 : v2.g.WellFormed)
+    (hw1 : ∀ e ∈ v1.g.edges, 0 ≤ e.w) (hw2 : ∀ e ∈ v2.g.edges, 0 ≤ e.w)
+    (hg : SameCaps v2.g (relabel φ v1.g)) (s t : Nat) (hne : s ≠ t) :
+    (C15F.fordFulkerson v2 (φ s) (φ t)).maxFlow = (C15F.fordFulkerson v1 s t).maxFlow := by
+  have V1 := (ford_fulkerson_value v1 hv1 hwf1 hw1 s t hne).1
+  have V2 := (ford_fulkerson_value v2 hv2 hwf2 hw2 (φ s) (φ t) (fun h => hne (hφ _ _ h))).1
+  exact isMinCutValue_unique ((isMinCutValue_relabel_iff hφ v1.g s t _).mp ((isMinCutValue_congr hg).mp V2)) V1
+
+/-- **ford_fulkerson, encoding independence** -/
+theorem C07_ford_fulkerson_encoding_independent
+    (v1 v2 : View) (hv1 : FlowView v1) (hv2 : FlowView v2) (hwf1 : v1.g.WellFormed) (hwf2 : v2.g.WellFormed)
+    (hw1 : ∀ e ∈ v1.g.edges, 0 ≤ e.w) (hw2 : ∀ e ∈ v2.g.edges, 0 ≤ e.w)
+    (hg : SameCaps v1.g v2.g) (s t : Nat) (hne : s ≠ t) :
+    (C15F.fordFulkerson v1 s t).maxFlow = (C15F.fordFulkerson v2 s t).maxFlow := by
+  have V1 := (ford_fulkerson_value v1 hv1 hwf1 hw1 s t hne).1
+  have V2 := (ford_fulkerson_value v2 hv2 hwf2 hw2 s t hne).1
+  exact isMinCutValue_unique ((isMinCutValue_congr hg).mp V1) V2
+
+/-- the size of a maximum matching is carried along by relabeling: matchings correspond -/
+theorem C07_matching_relabel (φ : Nat → Nat) (hφ : ∀ x y, φ x = φ y → x = y) (g : MGraph) (M : List (Nat × Nat))
+    (h : IsMatching g M) : IsMatching (relabel φ g) (M.map fun p => (φ p.1, φ p.2)) := by
+  obtain ⟨h1, h2⟩ := h
+  refine ⟨?_, ?_⟩
+  · intro p' hp'
+    obtain ⟨p, hp, rfl⟩ := List.mem_map.mp hp'
+    obtain ⟨hne, e, he, hor⟩ := h1 p hp
+    refine ⟨fun h => hne (hφ _ _ h), { e with src := φ e.src, tgt := φ e.tgt },
+      (mem_relabel_edges φ g).mpr ⟨e, he, rfl⟩, ?_⟩
+    rcases hor with ⟨a, b⟩ | ⟨a, b⟩
+    · exact Or.inl ⟨by simp [a], by simp [b]⟩
+    · exact Or.inr ⟨by simp [a], by simp [b]⟩
+  · refine List.pairwise_map.mpr (h2.imp ?_)
+    intro p q ⟨a, b, c, d⟩
+    exact ⟨fun h => a (hφ _ _ h), fun h => b (hφ _ _ h), fun h => c (hφ _ _ h), fun h => d (hφ _ _ h)⟩
+
+end C15
+
+/-! ## C16 — dominators (simple_fast), articulation_points -/
+section C16
+open PetgraphModel.C16S PetgraphModel.C16M PetgraphModel.C16P PetgraphModel.C07W2
+
+theorem C07_dominates_relabel (φ : Nat → Nat) (hφ : ∀ x y, φ x = φ y → x = y) (g : MGraph) (r a b : Nat) :
+    (Dominates (relabel φ g) (φ r) (φ a) (φ b) ↔ Dominates g r a b) ∧
+    (StrictlyDominates (relabel φ g) (φ r) (φ a) (φ b) ↔ StrictlyDominates g r a b) ∧
+    (IsIdom (relabel φ g) (φ r) (φ a) (φ b) ↔ IsIdom g r a b) :=
+  ⟨dominates_relabel_iff hφ g r a b, strictlyDominates_relabel_iff hφ g r a b, isIdom_relabel_iff hφ g r a b⟩
+
+/-- dominance depends only on the adjacency relation -/
+theorem C07_dominates_presentation (g1 g2 : MGraph) (h : SameAdj g1 g2) (r a b : Nat) :
+    (Dominates g1 r a b ↔ Dominates g2 r a b) ∧ (IsIdom g1 r a b ↔ IsIdom g2 r a b) :=
+  ⟨dominates_congr h, isIdom_congr h⟩
+
+theorem C07_cut_vertex_relabel (φ : Nat → Nat) (hφ : ∀ x y, φ x = φ y → x = y) (g : MGraph) (x : Nat) :
+    (CutVertex (relabel φ g) (φ x) ↔ CutVertex g x) ∧ numComponents (relabel φ g) = numComponents g :=
+  ⟨cutVertex_relabel_iff hφ g x, numComponents_relabel hφ g⟩
+
+/-- on undirected graphs with distinct nodes, being a cut vertex depends only on the node set and the
+adjacency relation (not on the order of the node list the components are counted along) -/
+theorem C07_cut_vertex_presentation (g1 g2 : MGraph) (hu1 : g1.directed = false) (hu2 : g2.directed = false)
+    (hn1 : g1.nodes.Nodup) (hn2 : g2.nodes.Nodup) (hn : SameNodes g1 g2) (h : SameAdj g1 g2) (x : Nat) :
+    CutVertex g1 x ↔ CutVertex g2 x :=
+  cutVertex_congr hu1 hu2 hn1 hn2 hn h x
+
+/-- **dominators::simple_fast respects isomorphism**: both runs succeed, and on the two results
+`immediate_dominator` commutes with `φ`, `dominators(b)` is `None` on one side iff `dominators(φ b)` is
+on the other, the dominator lists correspond (as sets, both duplicate-free), and
+`immediately_dominated_by` corresponds. -/
+theorem C07_simple_fast_respects_iso (φ : Nat → Nat) (hφ : ∀ x y, φ x = φ y → x = y)
+    (v1 v2 : View) (hv1 : C16P.ViewOk v1) (hv2 : C16P.ViewOk v2)
+    (hb1 : ∀ a, a ∈ v1.g.nodes → (v1.succ a).length ≤ (v1.g.succ a).length)
+    (hb2 : ∀ a, a ∈ v2.g.nodes → (v2.succ a).length ≤ (v2.g.succ a).length)
+    (root : Nat) (hr1 : root ∈ v1.g.nodes) (hr2 : φ root ∈ v2.g.nodes)
+    (hwf1 : v1.g.WellFormed) (hwf2 : v2.g.WellFormed) (hg : SameAdj v2.g (relabel φ v1.g)) :
+    ∃ d1 d2, simpleFast v1 root = .ok d1 ∧ simpleFast v2 (φ root) = .ok d2 ∧
+      (∀ b, d2.immediateDominator (φ b) = (d1.immediateDominator b).map φ) ∧
+      (∀ b, d2.dominators (φ b) = none ↔ d1.dominators b = none) ∧
+      (∀ b l1 l2, d1.dominators b = some l1 → d2.dominators (φ b) = some l2 → l2.Perm (l1.map φ)) ∧
+      (∀ n m, φ m ∈ d2.immediatelyDominatedBy (φ n) ↔ m ∈ d1.immediatelyDominatedBy n) := by
+  obtain ⟨d1, e1, _, n1, s1⟩ := C16T.C16_simple_fast v1 root hv1 hb1 hr1 hwf1
+  obtain ⟨d2, e2, _, n2, s2⟩ := C16T.C16_simple_fast v2 (φ root) hv2 hb2 hr2 hwf2
+  obtain ⟨d1', e1', i1, _, _, _, b1⟩ := C16T.C16_simple_fast_accessors v1 root hv1 hb1 hr1 hwf1
+  obtain ⟨d2', e2', i2, _, _, _, b2⟩ := C16T.C16_simple_fast_accessors v2 (φ root) hv2 hb2 hr2 hwf2
+  have hd1 : d1' = d1 := by have := e1'.symm.trans e1; injection this
+  have hd2 : d2' = d2 := by have := e2'.symm.trans e2; injection this
+  subst hd1; subst hd2
+  have idomT : ∀ y b, IsIdom v2.g (φ root) y (φ b) ↔ ∃ a, IsIdom v1.g root a b ∧ φ a = y := by
+    intro y b
+    rw [isIdom_congr hg]
+    constructor
+    · intro h
+      obtain ⟨a, rfl⟩ := isIdom_is_image hφ v1.g h
+      exact ⟨a, (isIdom_relabel_iff hφ v1.g root a b).mp h, rfl⟩
+    · rintro ⟨a, h, rfl⟩
+      exact (isIdom_relabel_iff hφ v1.g root a b).mpr h
+  refine ⟨d1', d2', e1, e2, ?_, ?_, ?_, ?_⟩
+  · intro b
+    refine opt_eq_of_spec (P := fun y => IsIdom v2.g (φ root) y (φ b)) (fun y => i2 (φ b) y) ?_
+    intro y
+    rw [idomT, Option.map_eq_some_iff]
+    exact ⟨fun ⟨a, h, e⟩ => ⟨a, (i1 b a).mp h, e⟩, fun ⟨a, h, e⟩ => ⟨a, (i1 b a).mpr h, e⟩⟩
+  · intro b
+    rw [n1, n2]
+    exact not_congr ((C07W2.reach_congr hg).trans (reach_relabel_iff v1.g hφ))
+  · intro b l1 l2 h1 h2
+    obtain ⟨nd1, m1⟩ := s1 b l1 h1
+    obtain ⟨nd2, m2⟩ := s2 (φ b) l2 h2
+    have hreach : Reach v1.g root b := by
+      have : ¬ d1'.dominators b = none := by rw [h1]; simp
+      exact Classical.byContradiction fun hn => this ((n1 b).mpr hn)
+    refine perm_of_nodup_mem nd2 (nodup_map_inj hφ nd1) ?_
+    intro y
+    rw [m2, dominates_congr hg, List.mem_map]
+    constructor
+    · intro h
+      obtain ⟨a, rfl⟩ := dominator_is_image v1.g hreach h
+      exact ⟨a, (m1 a).mpr ((dominates_relabel_iff hφ v1.g root a b).mp h), rfl⟩
+    · rintro ⟨a, ha, rfl⟩
+      exact (dominates_relabel_iff hφ v1.g root a b).mpr ((m1 a).mp ha)
+  · intro n m
+    rw [b1, b2, isIdom_congr hg]
+    exact isIdom_relabel_iff hφ v1.g root n m
+
+/-- **dominators::simple_fast, encoding independence**: the two results answer every query of
+`immediate_dominator` identically, and their `dominators` lists are rearrangements of each other. -/
+theorem C07_simple_fast_encoding_independent
+    (v1 v2 : View) (hv1 : C16P.ViewOk v1) (hv2 : C16P.ViewOk v2)
+    (hb1 : ∀ a, a ∈ v1.g.nodes → (v1.succ a).length ≤ (v1.g.succ a).length)
+    (hb2 : ∀ a, a ∈ v2.g.nodes → (v2.succ a).length ≤ (v2.g.succ a).length)
+    (root : Nat) (hr1 : root ∈ v1.g.nodes) (hr2 : root ∈ v2.g.nodes)
+    (hwf1 : v1.g.WellFormed) (hwf2 : v2.g.WellFormed) (hg : SameAdj v1.g v2.g) :
+    ∃ d1 d2, simpleFast v1 root = .ok d1 ∧ simpleFast v2 root = .ok d2 ∧
+      (∀ b, d1.immediateDominator b = d2.immediateDominator b) ∧
+      (∀ b, d1.dominators b = none ↔ d2.dominators b = none) ∧
+      (∀ b l1 l2, d1.dominators b = some l1 → d2.dominators b = some l2 → l1.Perm l2) := by
+  obtain ⟨d1, e1, _, n1, s1⟩ := C16T.C16_simple_fast v1 root hv1 hb1 hr1 hwf1
+  obtain ⟨d2, e2, _, n2, s2⟩ := C16T.C16_simple_fast v2 root hv2 hb2 hr2 hwf2
+  obtain ⟨d1', e1', i1, _⟩ := C16T.C16_simple_fast_accessors v1 root hv1 hb1 hr1 hwf1
+  obtain ⟨d2', e2', i2, _⟩ := C16T.C16_simple_fast_accessors v2 root hv2 hb2 hr2 hwf2
+  have hd1 : d1' = d1 := by have := e1'.symm.trans e1; injection this
+  have hd2 : d2' = d2 := by have := e2'.symm.trans e2; injection this
+  subst hd1; subst hd2
+  refine ⟨d1', d2', e1, e2, ?_, ?_, ?_⟩
+  · intro b
+    exact opt_eq_of_spec (fun y => i1 b y) (fun y => (i2 b y).trans (isIdom_congr hg).symm)
+  · intro b
+    rw [n1, n2]
+    exact not_congr (C07W2.reach_congr hg)
+  · intro b l1 l2 h1 h2
+    obtain ⟨nd1, m1⟩ := s1 b l1 h1
+    obtain ⟨nd2, m2⟩ := s2 b l2 h2
+    exact perm_of_nodup_mem nd1 nd2 fun y => ((m1 y).trans (dominates_congr hg)).trans (m2 y).symm
+
+/-- **articulation_points respects isomorphism**: both runs succeed and the second answer is a
+rearrangement of the first renamed by `φ`. -/
+theorem C07_articulation_respects_iso (φ : Nat → Nat) (hφ : ∀ x y, φ x = φ y → x = y)
+    (v1 v2 : View) (hv1 : C16P.ViewOk v1) (hv2 : C16P.ViewOk v2)
+    (hb1 : ∀ a, a ∈ v1.g.nodes → (v1.succ a).length ≤ (v1.g.succ a).length)
+    (hb2 : ∀ a, a ∈ v2.g.nodes → (v2.succ a).length ≤ (v2.g.succ a).length)
+    (hu1 : v1.g.directed = false) (hu2 : v2.g.directed = false)
+    (hwf1 : v1.g.WellFormed) (hwf2 : v2.g.WellFormed) (hi1 : IndexOk v1) (hi2 : IndexOk v2)
+    (hn : SameNodes v2.g (relabel φ v1.g)) (hg : SameAdj v2.g (relabel φ v1.g)) :
+    ∃ l1 l2, articulationPoints v1 = .ok l1 ∧ articulationPoints v2 = .ok l2 ∧ l2.Perm (l1.map φ) := by
+  obtain ⟨l1, e1, nd1, m1⟩ := C16T.C16_articulation v1 hv1 hb1 hu1 hwf1 hi1
+  obtain ⟨l2, e2, nd2, m2⟩ := C16T.C16_articulation v2 hv2 hb2 hu2 hwf2 hi2
+  refine ⟨l1, l2, e1, e2, perm_of_nodup_mem nd2 (nodup_map_inj hφ nd1) ?_⟩
+  intro y
+  have hwfr := wellFormed_relabel v1.g hφ hwf1
+  rw [m2, cutVertex_congr hu2 (show (relabel φ v1.g).directed = false from hu1) hwf2.1 hwfr.1 hn hg,
+    List.mem_map]
+  constructor
+  · intro h
+    obtain ⟨x, _, rfl⟩ := (mem_relabel_nodes_iff φ v1.g).mp h.1
+    exact ⟨x, (m1 x).mpr ((cutVertex_relabel_iff hφ v1.g x).mp h), rfl⟩
+  · rintro ⟨x, hx, rfl⟩
+    exact (cutVertex_relabel_iff hφ v1.g x).mpr ((m1 x).mp hx)
+
+/-- **articulation_points, encoding independence** -/
+theorem C07_articulation_encoding_independent
+    (v1 v2 : View) (hv1 : C16P.ViewOk v1) (hv2 : C16P.ViewOk v2)
+    (hb1 : ∀ a, a ∈ v1.g.nodes → (v1.succ a).length ≤ (v1.g.succ a).length)
+    (hb2 : ∀ a, a ∈ v2.g.nodes → (v2.succ a).length ≤ (v2.g.succ a).length)
+    (hu1 : v1.g.directed = false) (hu2 : v2.g.directed = false)
+    (hwf1 : v1.g.WellFormed) (hwf2 : v2.g.WellFormed) (hi1 : IndexOk v1) (hi2 : IndexOk v2)
+    (hn : SameNodes v1.g v2.g) (hg : SameAdj v1.g v2.g) :
+    ∃ l1 l2, articulationPoints v1 = .ok l1 ∧ articulationPoints v2 = .ok l2 ∧ l1.Perm l2 := by
+  obtain ⟨l1, e1, nd1, m1⟩ := C16T.C16_articulation v1 hv1 hb1 hu1 hwf1 hi1
+  obtain ⟨l2, e2, nd2, m2⟩ := C16T.C16_articulation v2 hv2 hb2 hu2 hwf2 hi2
+  refine ⟨l1, l2, e1, e2, perm_of_nodup_mem nd1 nd2 fun y => ?_⟩
+  rw [m1, m2]
+  exact cutVertex_congr hu1 hu2 hwf1.1 hwf2.1 hn hg y
+
+end C16
+
+/-! ## C08 — traversals: Dfs / Bfs / DfsPostOrder / Topo under isomorphism -/
+section C08
+open PetgraphModel.C07W2
+
+/-- **Dfs respects isomorphism**: `x` is emitted from `s` iff `φ x` is emitted from `φ s` on any view of
+any presentation of the renamed graph. -/
+theorem C07_dfs_respects_iso (φ : Nat → Nat) (hφ : ∀ x y, φ x = φ y → x = y)
+    (v1 v2 : View) (h1 : ViewOk v1) (h2 : ViewOk v2) (hg : SameAdj v2.g (relabel φ v1.g))
+    (s : Nat) (i1 o1 i2 o2 : Nat) (out1 out2 : List Nat) (d1 d2 : Dfs)
+    (r1 : dfsAll v1 i1 o1 { stack := [s], disc := [] } [] = some (out1, d1))
+    (r2 : dfsAll v2 i2 o2 { stack := [φ s], disc := [] } [] = some (out2, d2)) :
+    (∀ x, φ x ∈ out2 ↔ x ∈ out1) ∧ ∀ y ∈ out2, ∃ x, y = φ x := by
+  have a1 := (dfs_fresh v1 h1 s i1 o1 out1 d1 r1).2
+  have a2 := (dfs_fresh v2 h2 (φ s) i2 o2 out2 d2 r2).2
+  refine ⟨fun x => ?_, fun y hy => ?_⟩
+  · rw [a1, a2]; exact (C07W2.reach_congr hg).trans (reach_relabel_iff v1.g hφ)
+  · obtain ⟨x, hx, _⟩ := reach_relabel_inv v1.g hφ ((C07W2.reach_congr hg).mp ((a2 y).mp hy))
+    exact ⟨x, hx⟩
+
+theorem C07_bfs_respects_iso (φ : Nat → Nat) (hφ : ∀ x y, φ x = φ y → x = y)
+    (v1 v2 : View) (h1 : ViewOk v1) (h2 : ViewOk v2) (hg : SameAdj v2.g (relabel φ v1.g))
+    (s : Nat) (f1 f2 : Nat) (out1 out2 : List Nat)
+    (r1 : bfsAll v1 f1 (Bfs.new s) [] = some out1) (r2 : bfsAll v2 f2 (Bfs.new (φ s)) [] = some out2) :
+    (∀ x, φ x ∈ out2 ↔ x ∈ out1) ∧ ∀ y ∈ out2, ∃ x, y = φ x := by
+  have a1 := (bfs_spec v1 h1 s f1 out1 r1).2.1
+  have a2 := (bfs_spec v2 h2 (φ s) f2 out2 r2).2.1
+  refine ⟨fun x => ?_, fun y hy => ?_⟩
+  · rw [a1, a2]; exact (C07W2.reach_congr hg).trans (reach_relabel_iff v1.g hφ)
+  · obtain ⟨x, hx, _⟩ := reach_relabel_inv v1.g hφ ((C07W2.reach_congr hg).mp ((a2 y).mp hy))
+    exact ⟨x, hx⟩
+
+theorem C07_postorder_respects_iso (φ : Nat → Nat) (hφ : ∀ x y, φ x = φ y → x = y)
+    (v1 v2 : View) (h1 : ViewOk v1) (h2 : ViewOk v2) (hg : SameAdj v2.g (relabel φ v1.g))
+    (s : Nat) (i1 o1 i2 o2 : Nat) (out1 out2 : List Nat) (d1 d2 : Post)
+    (r1 : postAll v1 i1 o1 { stack := [s] } [] = some (out1, d1))
+    (r2 : postAll v2 i2 o2 { stack := [φ s] } [] = some (out2, d2)) :
+    (∀ x, φ x ∈ out2 ↔ x ∈ out1) ∧ ∀ y ∈ out2, ∃ x, y = φ x := by
+  have a1 := (post_set v1 h1 s i1 o1 out1 d1 r1).2
+  have a2 := (post_set v2 h2 (φ s) i2 o2 out2 d2 r2).2
+  refine ⟨fun x => ?_, fun y hy => ?_⟩
+  · rw [a1, a2]; exact (C07W2.reach_congr hg).trans (reach_relabel_iff v1.g hφ)
+  · obtain ⟨x, hx, _⟩ := reach_relabel_inv v1.g hφ ((C07W2.reach_congr hg).mp ((a2 y).mp hy))
+    exact ⟨x, hx⟩
+
+/-- "neither on nor downstream of a cycle" is carried along by an injective relabeling -/
+theorem C07_no_cycle_upstream_relabel (φ : Nat → Nat) (hφ : ∀ x y, φ x = φ y → x = y) (g : MGraph) (x : Nat) :
+    (∀ c, Reach1 (relabel φ g) c c → ¬ Reach (relabel φ g) c (φ x)) ↔ (∀ c, Reach1 g c c → ¬ Reach g c x) :=
+  noCycleUpstream_relabel_iff hφ g x
+
+/-- **Topo respects isomorphism**: on well-formed views, a node `x` is emitted by the first run iff `φ x`
+is emitted by the second (the emitted *set* — exactly the nodes neither on nor downstream of a cycle —
+is a function of the abstract graph; the order is a topological order in both, `C08_topo_order`). -/
+theorem C07_topo_respects_iso (φ : Nat → Nat) (hφ : ∀ x y, φ x = φ y → x = y)
+    (v1 v2 : View) (hv1 : ViewOk v1) (hv2 : ViewOk v2) (hp1 : PredOk v1) (hp2 : PredOk v2)
+    (hwf1 : v1.g.WellFormed) (hwf2 : v2.g.WellFormed)
+    (hn : SameNodes v2.g (relabel φ v1.g)) (hg : SameAdj v2.g (relabel φ v1.g))
+    (i1 o1 i2 o2 : Nat) (out1 out2 : List Nat)
+    (r1 : topoAll v1 i1 o1 (Topo.new v1) [] = some out1) (r2 : topoAll v2 i2 o2 (Topo.new v2) [] = some out2)
+    (x : Nat) (hx : x ∈ v1.g.nodes) : φ x ∈ out2 ↔ x ∈ out1 := by
+  have hx2 : φ x ∈ v2.g.nodes := (hn (φ x)).mpr ((mem_relabel_nodes v1.g hφ).mpr hx)
+  rw [C08T.C08_topo_exact v1 hv1 hp1 hwf1 i1 o1 out1 r1 x hx,
+    C08T.C08_topo_exact v2 hv2 hp2 hwf2 i2 o2 out2 r2 (φ x) hx2]
+  exact (noCycleUpstream_congr hg (φ x)).trans (noCycleUpstream_relabel_iff hφ v1.g x)
+
+/-- **Topo, encoding independence** -/
+theorem C07_topo_encoding_independent
+    (v1 v2 : View) (hv1 : ViewOk v1) (hv2 : ViewOk v2) (hp1 : PredOk v1) (hp2 : PredOk v2)
+    (hwf1 : v1.g.WellFormed) (hwf2 : v2.g.WellFormed) (hn : SameNodes v1.g v2.g) (hg : SameAdj v1.g v2.g)
+    (i1 o1 i2 o2 : Nat) (out1 out2 : List Nat)
+    (r1 : topoAll v1 i1 o1 (Topo.new v1) [] = some out1) (r2 : topoAll v2 i2 o2 (Topo.new v2) [] = some out2)
+    (x : Nat) (hx : x ∈ v1.g.nodes) : x ∈ out1 ↔ x ∈ out2 := by
+  rw [C08T.C08_topo_exact v1 hv1 hp1 hwf1 i1 o1 out1 r1 x hx,
+    C08T.C08_topo_exact v2 hv2 hp2 hwf2 i2 o2 out2 r2 x ((hn x).mp hx)]
+  exact noCycleUpstream_congr hg x
+
+end C08
+
+/-! ## C20 — page_rank, greedy_feedback_arc_set -/
+section C20
+open PetgraphModel.C20 PetgraphModel.C07W2
+
+/-- **page_rank respects isomorphism** (re-export of `C20_pagerank_equivariant` for `C07T.relabel`): the
+rank of `φ x` in the relabeled graph is the rank of `x`.  (Stated for the abstract graph the model is a
+function of; through an encoding with vacant indices the real function is the recorded finding D12,
+see `isKnownException`.) -/
+theorem C07_pagerank_respects_iso (φ : Nat → Nat) (hφ : ∀ x y, φ x = φ y → x = y) (g : MGraph) (d : Rat) (k : Nat) :
+    PR.pageRank (relabel φ g) d k = (PR.pageRank g d k).map (PR.relabelRanks φ) :=
+  C20T.C20_pagerank_equivariant φ hφ g d k
+
+/-- consequently every node keeps its rank -/
+theorem C07_pagerank_rank_respects_iso (φ : Nat → Nat) (hφ : ∀ x y, φ x = φ y → x = y) (g : MGraph) (d : Rat)
+    (k : Nat) (r : List (Nat × Rat)) (h : PR.pageRank g d k = some r) :
+    ∃ r', PR.pageRank (relabel φ g) d k = some r' ∧ ∀ x, PR.rk r' (φ x) = PR.rk r x := by
+  refine ⟨PR.relabelRanks φ r, ?_, fun x => PR.rk_relabel hφ r x⟩
+  rw [C07_pagerank_respects_iso φ hφ g d k, h]; rfl
+
+/-- "removing these edge ids leaves no cycle" is carried along by an injective relabeling and by any
+re-presentation with the same edge records -/
+theorem C07_feedback_arc_set_relabel (φ : Nat → Nat) (hφ : ∀ x y, φ x = φ y → x = y) (g1 g2 : MGraph)
+    (hd : g2.directed = g1.directed) (hg : SameEdgeSet g2 (relabel φ g1)) (ids : List Nat)
+    (h : ∀ x, ¬ Reach1 (removeEdges g1 ids) x x) : ∀ x, ¬ Reach1 (removeEdges g2 ids) x x :=
+  fas_transport hφ hd hg ids h
+
+/-- **greedy_feedback_arc_set respects isomorphism** in the sense in which a non-unique answer can:
+run on two encodings (`order1`, `order2` = the two `edge_references()` orders) of a directed graph and
+of its renaming by an injective `φ` with the same edge ids, each answer is a valid feedback arc set —
+removal leaves no cycle, every self-loop is removed — of its own graph AND, transported by the edge
+ids, of the other one's. -/
+theorem C07_feedback_arc_set_respects_iso (φ : Nat → Nat) (hφ : ∀ x y, φ x = φ y → x = y) (g1 g2 : MGraph)
+    (hd1 : g1.directed = true) (hd2 : g2.directed = true) (hg : SameEdgeSet g2 (relabel φ g1))
+    (order1 order2 : List Edge) (hall1 : ∀ e ∈ g1.edges, e ∈ order1) (hall2 : ∀ e ∈ g2.edges, e ∈ order2) :
+    let F1 := Fas.feedbackArcSet (order1.map fun e => (e.id, e.src, e.tgt))
+    let F2 := Fas.feedbackArcSet (order2.map fun e => (e.id, e.src, e.tgt))
+    (∀ x, ¬ Reach1 (removeEdges g1 F1) x x) ∧ (∀ x, ¬ Reach1 (removeEdges g2 F2) x x) ∧
+    (∀ x, ¬ Reach1 (removeEdges g2 F1) x x) ∧
+    (∀ e ∈ g2.edges, e.src = e.tgt → e.id ∈ F1 ∧ e.id ∈ F2) := by
+  intro F1 F2
+  have A1 := C20T.C20_fas_model_correct g1 hd1 order1 hall1
+  have A2 := C20T.C20_fas_model_correct g2 hd2 order2 hall2
+  refine ⟨A1.1, A2.1, fas_transport hφ (hd2.trans hd1.symm) hg F1 A1.1, ?_⟩
+  intro e he hl
+  refine ⟨?_, A2.2 e (hall2 e he) hl⟩
+  obtain ⟨e1, he1, rfl⟩ := (mem_relabel_edges φ g1).mp ((hg e).mp he)
+  exact A1.2 e1 (hall1 e1 he1) (hφ _ _ hl)
+
+end C20
+
+/-! ## C13 — the isomorphism notions themselves (re-export) -/
+
+/-- `Iso` / `SubIso` of a matching problem are unchanged when both graphs are renamed (re-export of
+`C13_relabel_invariant`; `C13.relabel` is this file's `relabel`). -/
+theorem C07_iso_relabel (P : C13.Problem) (σ0 τ0 σ1 τ1 : Nat → Nat)
+    (wf0 : P.g0.WellFormed) (wf1 : P.g1.WellFormed)
+    (h0 : ∀ a ∈ P.g0.nodes, τ0 (σ0 a) = a) (h1 : ∀ b ∈ P.g1.nodes, τ1 (σ1 b) = b) :
+    (C13.Iso (P.relabel σ0 τ0 σ1 τ1) ↔ C13.Iso P) ∧ (C13.SubIso (P.relabel σ0 τ0 σ1 τ1) ↔ C13.SubIso P) :=
+  let r := C13T.C13_relabel_invariant P σ0 τ0 σ1 τ1 wf0 wf1 h0 h1
+  ⟨r.1, r.2.1⟩
+
+/-! ## the hypotheses of the wave-2 theorems are satisfiable: a concrete isomorphic pair of views -/
+section Examples
+open PetgraphModel.C10P PetgraphModel.SP PetgraphModel.C07W2
+
+/-- the renaming `x ↦ 2 x + 10` -/
+def exφ : Nat → Nat := fun x => 2 * x + 10
+
+theorem exφ_inj : ∀ x y, exφ x = exφ y → x = y := by
+  intro x y h; unfold exφ at h; omega
+
+/-- `C10T.exView` (4 nodes, a zero-cost cycle, a loop, an isolated node, a vacancy in the index
+assignment) renamed by `exφ`, its rows listed in another order, another index assignment and bound -/
+def exView2 : View :=
+  { g := relabel exφ C10T.exView.g,
+    nb := 9, ix := [(10, 8), (12, 0), (14, 5), (16, 2)],
+    out := [(16, []), (14, [(12, 2), (14, 4)]), (12, [(14, 3)]), (10, [(12, 0), (14, 1)])],
+    inn := [] }
+
+example : C10.viewOkB exView2 = true ∧ C10.viewOkB C10T.exView = true := by decide
+
+/-- the isomorphism theorem applies to the pair, and says what the two concrete runs show -/
+example : (∀ x, amGet ([(10, 0), (12, 1), (14, 0)] : List (Nat × Int)) (exφ x) =
+    amGet ([(0, 0), (2, 0), (1, 1)] : List (Nat × Int)) x) := by
+  have hv1 := C10T.C10_view_check C10T.exView (by decide)
+  have hv2 := C10T.C10_view_check exView2 (by decide)
+  exact (C07_dijkstra_respects_iso exφ exφ_inj popMin popMin C10T.C10_popMin_isMinPop C10T.C10_popMin_isMinPop
+    C10T.exView exView2 hv1.1 hv2.1 hv1.2 (SameArcs.refl _) 0 [(0, 0), (2, 0), (1, 1)]
+    [(10, 0), (12, 1), (14, 0)] (by decide) (by decide)).1
+
+example : SP.dijkstra popMin exView2 (exφ 0) none = some [(10, 0), (12, 1), (14, 0)] := by decide
+
+end Examples
+
+/-! ## C09 (continued) — TarjanScc; C13 — is_isomorphic / is_isomorphic_subgraph -/
+section C09b
+open PetgraphModel.C09J PetgraphModel.C09M PetgraphModel.C07W2
+
+/-- **TarjanScc::run respects isomorphism** (fresh run): the first answer, renamed, is a correct answer
+for the second graph, and the two answers are the same partition. -/
+theorem C07_tarjan_respects_iso (φ : Nat → Nat) (hφ : ∀ x y, φ x = φ y → x = y)
+    (v1 v2 : View) (hv1 : C09P.ViewOk v1) (hv2 : C09P.ViewOk v2) (hix1 : C09T.IxOk v1) (hix2 : C09T.IxOk v2)
+    (hwf1 : v1.g.WellFormed) (hwf2 : v2.g.WellFormed)
+    (hs1 : 2 * v1.g.nodes.length + 1 ≤ usizeMax) (hs2 : 2 * v2.g.nodes.length + 1 ≤ usizeMax)
+    (hn : SameNodes v2.g (relabel φ v1.g)) (hg : SameAdj v2.g (relabel φ v1.g))
+    (t1 t2 : TJ) (h1 : tjRun v1 {} = some t1) (h2 : tjRun v2 {} = some t2) :
+    SccSpec v2.g (t1.out.map (List.map φ)) ∧
+    ∀ x y, (∃ c ∈ t1.out, x ∈ c ∧ y ∈ c) ↔ (∃ c ∈ t2.out, φ x ∈ c ∧ φ y ∈ c) := by
+  have S1 := (C09T.C09_tarjan v1 hv1 hix1 hwf1 hs1 t1 h1).1.1
+  have S2 := (C09T.C09_tarjan v2 hv2 hix2 hwf2 hs2 t2 h2).1.1
+  refine ⟨sccSpec_congr hn.symm hg.symm (sccSpec_relabel hφ S1), fun x y => ?_⟩
+  rw [C09P.part_same_iff (C09P.SccSpec.toPart S1), C09P.part_same_iff (C09P.SccSpec.toPart S2)]
+  have e1 : φ x ∈ v2.g.nodes ↔ x ∈ v1.g.nodes := (hn (φ x)).trans (mem_relabel_nodes v1.g hφ)
+  have e2 : SC v2.g (φ x) (φ y) ↔ SC v1.g x y := (sc_congr hg).trans (sc_relabel_iff hφ v1.g)
+  rw [e1, e2]
+
+/-- **tarjan_scc and kosaraju_scc return the same partition**, on any two views of any two
+presentations of the same graph -/
+theorem C07_tarjan_kosaraju_same_partition
+    (v1 v2 : View) (hv1 : C09P.ViewOk v1) (hv2 : C09P.ViewOk v2) (hix1 : C09T.IxOk v1)
+    (hp2 : ∀ a b, b ∈ v2.pred a ↔ v2.g.Adj b a)
+    (hwf1 : v1.g.WellFormed) (hwf2 : v2.g.WellFormed) (hs1 : 2 * v1.g.nodes.length + 1 ≤ usizeMax)
+    (hn : SameNodes v1.g v2.g) (hg : SameAdj v1.g v2.g)
+    (t1 : TJ) (comps2 : List (List Nat)) (h1 : tjRun v1 {} = some t1) (h2 : kosaraju v2 = some comps2) :
+    ∀ x y, (∃ c ∈ t1.out, x ∈ c ∧ y ∈ c) ↔ (∃ c ∈ comps2, x ∈ c ∧ y ∈ c) := by
+  have S1 := (C09T.C09_tarjan v1 hv1 hix1 hwf1 hs1 t1 h1).1.1
+  have S2 := C09T.C09_kosaraju v2 hv2 hp2 hwf2 comps2 h2
+  intro x y
+  rw [C09P.part_same_iff (C09P.SccSpec.toPart S1), C09P.part_same_iff (C09P.SccSpec.toPart S2),
+    hn x, sc_congr hg]
+
+end C09b
+
+section C13b
+open PetgraphModel.C13 PetgraphModel.C13.Vf2
+
+/-- the side conditions of `C13_vf2_iso_iff` / `C13_vf2_sub_iff` (checked per case by the driver) -/
+structure Vf2Side (I : Inst) (sub : Bool) : Prop where
+  cg0 : cgOkB I.g0 = true
+  cg1 : cgOkB I.g1 = true
+  dir : I.g0.directed = I.g1.directed
+  pos : 0 < I.g0.n
+  e0 : ECountOk I.g0
+  e1 : ECountOk I.g1
+  inn : inNodupB I.g0 = true
+  fuel : (isomorphisms I sub bigFuel (M.init I)).isSome = true
+
+/-- **is_isomorphic respects isomorphism**: if the second instance's matching problem is the first one's
+with both graphs renamed (node weights carried along), the two answers coincide — whatever the two
+encodings' iteration orders are. -/
+theorem C07_is_isomorphic_respects_iso (I1 I2 : Inst) (s1 : Vf2Side I1 false) (s2 : Vf2Side I2 false)
+    (σ0 τ0 σ1 τ1 : Nat → Nat) (wf0 : I1.problem.g0.WellFormed) (wf1 : I1.problem.g1.WellFormed)
+    (h0 : ∀ a ∈ I1.problem.g0.nodes, τ0 (σ0 a) = a) (h1 : ∀ b ∈ I1.problem.g1.nodes, τ1 (σ1 b) = b)
+    (hP : I2.problem = I1.problem.relabel σ0 τ0 σ1 τ1) : isoModel I2 = isoModel I1 := by
+  have A1 := C13T.C13_vf2_iso_iff I1 s1.cg0 s1.cg1 s1.dir s1.pos s1.e0 s1.e1 s1.inn s1.fuel
+  have A2 := C13T.C13_vf2_iso_iff I2 s2.cg0 s2.cg1 s2.dir s2.pos s2.e0 s2.e1 s2.inn s2.fuel
+  have R := (C13T.C13_relabel_invariant I1.problem σ0 τ0 σ1 τ1 wf0 wf1 h0 h1).1
+  rw [← hP] at R
+  cases hb1 : isoModel I1 <;> cases hb2 : isoModel I2 <;> simp_all
+
+/-- **is_isomorphic_subgraph respects isomorphism** -/
+theorem C07_is_isomorphic_subgraph_respects_iso (I1 I2 : Inst) (s1 : Vf2Side I1 true) (s2 : Vf2Side I2 true)
+    (σ0 τ0 σ1 τ1 : Nat → Nat) (wf0 : I1.problem.g0.WellFormed) (wf1 : I1.problem.g1.WellFormed)
+    (h0 : ∀ a ∈ I1.problem.g0.nodes, τ0 (σ0 a) = a) (h1 : ∀ b ∈ I1.problem.g1.nodes, τ1 (σ1 b) = b)
+    (hP : I2.problem = I1.problem.relabel σ0 τ0 σ1 τ1) : subModel I2 = subModel I1 := by
+  have A1 := C13T.C13_vf2_sub_iff I1 s1.cg0 s1.cg1 s1.dir s1.pos s1.e0 s1.e1 s1.inn s1.fuel
+  have A2 := C13T.C13_vf2_sub_iff I2 s2.cg0 s2.cg1 s2.dir s2.pos s2.e0 s2.e1 s2.inn s2.fuel
+  have R := (C13T.C13_relabel_invariant I1.problem σ0 τ0 σ1 τ1 wf0 wf1 h0 h1).2.1
+  rw [← hP] at R
+  cases hb1 : subModel I1 <;> cases hb2 : subModel I2 <;> simp_all
+
+end C13b
 
 end PetgraphModel.C07T
